@@ -4,7 +4,7 @@
    every jump operand the compiler patches lands on an instruction boundary
    inside the program and the stack states agree at every join. *)
 From Coq Require Import ZArith NArith List Bool Lia ZifyBool ZifyNat ZifyN Floats.
-From EvyV Require Import Base Bytecode BytecodeProofs SymTab SymTabProofs Vm VmProofs Compile CompileProofs CompileWfProofs CompileJumpProofs CompileHoleProofs.
+From EvyV Require Import Base Bytecode BytecodeProofs SymTab SymTabProofs Vm VmProofs Compile CompileProofs CompileWfProofs CompileJumpProofs CompileHoleProofs CompileSymProofs.
 Require Import EvyV.Gen.Opcodes.
 Import ListNotations.
 Open Scope N_scope.
@@ -198,18 +198,49 @@ Definition pcof (st : cstate) : N := N.of_nat (List.length (ccode st)).
 (* ---------- the expression piece ---------- *)
 Definition has_gb (s : symtab) : Prop := exists gc0, globals_below s gc0.
 
-Lemma expr_piece e st st1 : efrag e = true -> compile_expr true e st = COk st1 -> has_gb (csym st) ->
+(* the weak form used once blocks declare locals *)
+Definition has_gbw (s : symtab) : Prop := exists gc0, gbw s gc0.
+Lemma has_gbw_push s : has_gbw s -> has_gbw (st_push s).
+Proof. intros (g & H). exists g. apply gbw_push. exact H. Qed.
+Lemma sx_has_gbw s s' : SX s s' -> has_gbw s -> has_gbw s'.
+Proof. intros X (g & H). exists g. apply (sx_gbw _ _ X). exact H. Qed.
+
+Lemma expr_piece e st st1 : efrag e = true -> compile_expr true e st = COk st1 -> has_gbw (csym st) ->
   csym st1 = csym st /\ cbreaks st1 = cbreaks st /\
   exists ops newc, ops <> [] /\ AOK (solid ops) /\
     ccode st1 = ccode st ++ encode ops /\ cconsts st1 = cconsts st ++ newc /\
-    forall nc gc k, N.of_nat (List.length (cconsts st1)) <= nc -> globals_below (csym st) gc ->
-                    runs nc gc ops k = Some (k + 1).
+    (forall nc gc k, N.of_nat (List.length (cconsts st1)) <= nc -> gbw (csym st) gc ->
+                    runs nc gc ops k = Some (k + 1)) /\
+    (forall lc, lbw (csym st) lc -> Forall (lopk lc) ops).
 Proof.
-  intros HF HC (gc0 & HG). destruct (efrag_sl e HF st st1 HC) as (A & ops & newc & B & C & D).
+  intros HF HC (gc0 & HG). destruct (efrag_sl2 e HF st st1 HC) as (A & ops & newc & B & C & D & L).
   split; [exact A|]. split; [apply (efrag_breaks e HF _ _ HC)|].
   exists ops, newc. pose proof (D (N.of_nat (List.length (cconsts st1))) gc0 0 (N.le_refl _) HG) as R0.
   split; [apply (runs_nonempty _ _ _ _ R0)|]. split; [apply (runs_aok _ _ _ _ _ R0)|]. auto.
 Qed.
+
+(* the store of a variable, global or local *)
+Definition setop (y : symbol) : opc := match sscp y with GlobalScope => SetGlobal | LocalScope => SetLocal end.
+
+Lemma set_var_sl y st1 st' : emit_set_var true y st1 = COk st' ->
+  csym st' = csym st1 /\ cconsts st' = cconsts st1 /\ cbreaks st' = cbreaks st1 /\
+  ccode st' = ccode st1 ++ encode [(setop y, sidx y)] /\ sidx y < 65536.
+Proof.
+  unfold emit_set_var, setop. intro H. destruct (sscp y); apply emit_enc1 in H; try reflexivity; destruct H as [HR ->];
+    cbn [csym ccode cconsts cbreaks]; rewrite N2Z.id, encode_one; repeat split; lia.
+Qed.
+
+Lemma sop_ok_setvar nc gc y k : (sscp y = GlobalScope -> sidx y < gc) -> sidx y < 65536 ->
+  sop_ok nc gc (setop y, sidx y) (k + 1) = Some k.
+Proof.
+  intros H1 H2. unfold setop. destruct (sscp y); [apply sop_ok_setglobal; auto|].
+  unfold sop_ok. cbn [is_sl negb has_operand andb simple_effect].
+  destruct (sidx y <? 65536) eqn:E; [|apply N.ltb_ge in E; lia]. cbn [negb].
+  destruct (k + 1 <? 1) eqn:E0; [apply N.ltb_lt in E0; lia|]. f_equal. lia.
+Qed.
+
+Lemma lopk_setvar lc y : (sscp y = LocalScope -> sidx y < lc) -> lopk lc (setop y, sidx y).
+Proof. unfold lopk, setop. cbn [fst snd]. destruct (sscp y); intros H X; [discriminate X|apply H; reflexivity]. Qed.
 
 (* ---------- single instructions ---------- *)
 Lemma step_jof nc gc T k : T < 65536 -> jop_step nc gc (JumpOnFalse, T) (AH (k + 1)) = Some (AH k).
@@ -262,7 +293,7 @@ Qed.
 
 (* ---------- the statement-level judgment ---------- *)
 Definition CTL (st st' : cstate) : Prop :=
-  csym st' = csym st /\
+  SX (csym st) (csym st') /\
   exists new newc newb,
     AOK new /\
     ccode st' = ccode st ++ encode (strip new) /\
@@ -270,7 +301,9 @@ Definition CTL (st st' : cstate) : Prop :=
     cbreaks st' = cbreaks st ++ map Z.of_N newb /\
     NoDup newb /\
     (forall p, In p newb -> hole_at new (pcof st) p) /\
-    forall nc gc k, N.of_nat (List.length (cconsts st')) <= nc -> globals_below (csym st) gc ->
+    (* the local accesses stay below whatever LocalCount the table ends with *)
+    (forall lc, bound (csym st') <= lc -> LOK lc new) /\
+    forall nc gc k, N.of_nat (List.length (cconsts st')) <= nc -> gbw (csym st) gc ->
       BOK nc gc new (pcof st) (AH k) (AH k) /\
       forall p ra, In (p, ra) (holes nc gc new (pcof st) (AH k)) -> ra = AH k /\ In p newb.
 
@@ -287,16 +320,16 @@ Proof. intros H HA. unfold pcof. rewrite H, app_length, Nat2N.inj_add, (aok_len 
 
 Lemma CTL_refl st : CTL st st.
 Proof.
-  split; [reflexivity|]. exists [], [], []. split; [constructor|]. split; [simpl; rewrite app_nil_r; reflexivity|].
+  split; [apply SX_refl|]. exists [], [], []. split; [constructor|]. split; [simpl; rewrite app_nil_r; reflexivity|].
   split; [rewrite app_nil_r; reflexivity|]. split; [simpl; rewrite app_nil_r; reflexivity|]. split; [constructor|].
-  split; [intros p []|]. intros nc gc k _ _. split; [split; simpl; auto|intros p ra []].
+  split; [intros p []|]. split; [intros; apply lok_nil|]. intros nc gc k _ _. split; [split; simpl; auto|intros p ra []].
 Qed.
 
 Lemma CTL_trans st st1 st2 : CTL st st1 -> CTL st1 st2 -> CTL st st2.
 Proof.
-  intros (S1 & n1 & c1 & b1 & A1 & C1 & K1 & B1 & ND1 & H1 & D1) (S2 & n2 & c2 & b2 & A2 & C2 & K2 & B2 & ND2 & H2 & D2).
+  intros (S1 & n1 & c1 & b1 & A1 & C1 & K1 & B1 & ND1 & H1 & L1 & D1) (S2 & n2 & c2 & b2 & A2 & C2 & K2 & B2 & ND2 & H2 & L2 & D2).
   pose proof (pcof_app st st1 n1 C1 A1) as HP.
-  split; [congruence|]. exists (n1 ++ n2), (c1 ++ c2), (b1 ++ b2).
+  split; [eapply SX_trans; eauto|]. exists (n1 ++ n2), (c1 ++ c2), (b1 ++ b2).
   split; [apply aok_app; assumption|].
   split; [rewrite C2, C1, strip_app; unfold encode; rewrite flat_map_app, app_assoc; reflexivity|].
   split; [rewrite K2, K1, app_assoc; reflexivity|].
@@ -308,10 +341,12 @@ Proof.
   { intros p Hp. apply in_app_or in Hp. destruct Hp as [Hp|Hp].
     - apply hole_at_app_l. apply H1. exact Hp.
     - apply hole_at_app_r. rewrite <- HP. apply H2. exact Hp. }
+  split.
+  { intros lc HLc. pose proof (sx_bound _ _ S2). apply lok_app; [apply L1; lia|apply L2; exact HLc]. }
   intros nc gc k Hnc HG.
   assert (Hnc1 : N.of_nat (List.length (cconsts st1)) <= nc) by (rewrite K2, app_length in Hnc; lia).
   destruct (D1 nc gc k Hnc1 HG) as [BK1 HL1].
-  assert (HG1 : globals_below (csym st1) gc) by (rewrite S1; exact HG).
+  assert (HG1 : gbw (csym st1) gc) by (apply (sx_gbw _ _ S1); exact HG).
   destruct (D2 nc gc k Hnc HG1) as [BK2 HL2]. rewrite HP in BK2, HL2.
   split; [eapply bok_app; eauto|].
   intros p ra Hin. rewrite (holes_app nc gc n1 n2 (pcof st) (AH k) (AH k) (proj1 BK1)) in Hin.
@@ -322,14 +357,16 @@ Qed.
 
 (* a straight-line piece as a CTL step *)
 Lemma CTL_straight st st' ops newc :
-  csym st' = csym st -> cbreaks st' = cbreaks st -> AOK (solid ops) ->
+  SX (csym st) (csym st') -> cbreaks st' = cbreaks st -> AOK (solid ops) ->
   ccode st' = ccode st ++ encode ops -> cconsts st' = cconsts st ++ newc ->
-  (forall nc gc k, N.of_nat (List.length (cconsts st')) <= nc -> globals_below (csym st) gc -> runs nc gc ops k = Some k) ->
+  (forall lc, bound (csym st') <= lc -> Forall (lopk lc) ops) ->
+  (forall nc gc k, N.of_nat (List.length (cconsts st')) <= nc -> gbw (csym st) gc -> runs nc gc ops k = Some k) ->
   CTL st st'.
 Proof.
-  intros S B A C K R. split; [exact S|]. exists (solid ops), newc, [].
+  intros S B A C K L R. split; [exact S|]. exists (solid ops), newc, [].
   split; [exact A|]. split; [rewrite strip_solid; exact C|]. split; [exact K|].
   split; [simpl; rewrite app_nil_r; exact B|]. split; [constructor|]. split; [intros p []|].
+  split; [intros lc HLc; apply lok_solid, L, HLc|].
   intros nc gc k Hnc HG. destruct (runs_bok nc gc ops (pcof st) k k (R nc gc k Hnc HG)) as [BK HH].
   split; [exact BK|]. rewrite HH. intros p ra [].
 Qed.
@@ -338,15 +375,17 @@ Lemma has_gb_push s : has_gb s -> has_gb (st_push s).
 Proof. intros (g & H). exists g. apply globals_below_push. exact H. Qed.
 
 (* a block: enterScope; statements; leaveScope *)
-Lemma CTL_block st st3 : gsym (csym st) ->
+Lemma CTL_block st st3 :
   CTL (with_sym (st_push (csym st)) st) st3 ->
   CTL st (with_sym (st_pop (csym st3)) st3).
 Proof.
-  intros HG (S & new & newc & newb & A & C & K & B & ND & HH & D).
+  intros (S & new & newc & newb & A & C & K & B & ND & HH & L & D).
   cbn [with_sym csym ccode cconsts cbreaks] in *.
-  split; [cbn [with_sym csym]; rewrite S; apply pop_push_id; exact HG|].
-  exists new, newc, newb. cbn [with_sym ccode cconsts cbreaks]. repeat (split; [assumption|]).
-  intros nc gc k Hnc HB. apply (D nc gc k Hnc). apply globals_below_push. exact HB.
+  split; [cbn [with_sym csym]; apply SX_block; exact S|].
+  exists new, newc, newb. cbn [with_sym ccode cconsts cbreaks csym]. repeat (split; [assumption|]).
+  split.
+  { intros lc HLc. apply L. pose proof (bound_step SPop (csym st3)) as X. cbn [st_step fst] in X. lia. }
+  intros nc gc k Hnc HB. apply (D nc gc k Hnc). apply gbw_push. exact HB.
 Qed.
 
 (* ---------- emitting jumps ---------- *)
@@ -366,19 +405,19 @@ Proof.
 Qed.
 
 Definition slist_ctl (l : slist) : Prop :=
-  forall st st', body_of true l st = COk st' -> gsym (csym st) -> has_gb (csym st) -> CTL st st'.
+  forall st st', body_of true l st = COk st' -> outers (csym st) <> [] -> Inv (csym st) -> has_gbw (csym st) -> CTL st st'.
 
 Lemma compile_block_body b st : compile_block true b st =
   body_of true b (with_sym (st_push (csym st)) st) >>= fun st1 => COk (with_sym (st_pop (csym st1)) st1).
 Proof. destruct b; reflexivity. Qed.
 
 Lemma ctl_block b st st' : slist_ctl b -> compile_block true b st = COk st' ->
-  gsym (csym st) -> has_gb (csym st) -> CTL st st'.
+  Inv (csym st) -> has_gbw (csym st) -> CTL st st'.
 Proof.
   intros HB HC HG HGB. rewrite compile_block_body in HC.
   destruct (body_of true b (with_sym (st_push (csym st)) st)) as [st3|] eqn:E; [|discriminate].
-  cbn [bind] in HC. inversion HC; subst st'. apply CTL_block; [exact HG|].
-  apply (HB _ _ E); cbn [with_sym csym]; [apply gsym_push; exact HG|apply has_gb_push; exact HGB].
+  cbn [bind] in HC. inversion HC; subst st'. apply CTL_block.
+  apply (HB _ _ E); cbn [with_sym csym]; [discriminate|apply inv_push; exact HG|apply has_gbw_push; exact HGB].
 Qed.
 
 Lemma encode_strip_app a b : encode (strip (a ++ b)) = encode (strip a) ++ encode (strip b).
@@ -389,35 +428,64 @@ Proof.
   cbn [compile_stmt]. intro HC.
   destruct (emit true Jump [JumpPlaceholderZ] st) as [st1|] eqn:E1; [|discriminate]. cbn [bind] in HC.
   inversion HC; subst st'; clear HC. apply emit_hole in E1; [|reflexivity]. subst st1.
-  split; [reflexivity|]. exists [(true, (Jump, 9999))], [], [pcof st]. cbn [with_breaks ccode cconsts csym cbreaks].
+  split; [apply SX_refl|]. exists [(true, (Jump, 9999))], [], [pcof st]. cbn [with_breaks ccode cconsts csym cbreaks].
   split; [constructor; [cbn; lia|constructor]|]. split; [reflexivity|]. split; [rewrite app_nil_r; reflexivity|].
   split; [cbn [map]; unfold pos_of, pcof; rewrite nat_N_Z; reflexivity|].
   split; [constructor; [intros []|constructor]|].
   split; [intros p [<-|[]]; cbn [hole_at]; left; auto|].
+  split; [intros; apply lok_one; reflexivity|].
   intros nc gc k _ _. destruct (bok_hole_jump nc gc (pcof st) k) as [BK HH]. split; [exact BK|].
   rewrite HH. intros p ra [Eq|[]]. inversion Eq; subst. split; [reflexivity|left; reflexivity].
 Qed.
 
-(* x = e for a global x *)
+(* x = e for a global or local x *)
 Lemma ctl_assign n e st st' : efrag e = true ->
-  compile_stmt true (SAssign (EVar n) e) st = COk st' -> has_gb (csym st) -> CTL st st'.
+  compile_stmt true (SAssign (EVar n) e) st = COk st' -> Inv (csym st) -> has_gbw (csym st) -> CTL st st'.
 Proof.
-  intros HF HC HGB. cbn [compile_stmt] in HC.
+  intros HF HC HI HGB. cbn [compile_stmt] in HC.
   destruct (compile_expr true e st) as [st1|] eqn:E1; [|discriminate]. cbn [bind] in HC.
-  destruct (expr_piece e st st1 HF E1 HGB) as (S1 & B1 & ops & newc & NE & A & C & K & R).
+  destruct (expr_piece e st st1 HF E1 HGB) as (S1 & B1 & ops & newc & NE & A & C & K & R & L).
   destruct (st_resolve n (csym st1)) as [y|] eqn:ER; [|discriminate]. rewrite S1 in ER.
-  destruct HGB as (gc0 & HG0). destruct (HG0 n y ER) as [SG _].
-  destruct (set_global_sl y st1 st' (sidx y + 1) HC SG ltac:(lia)) as (E1' & E2' & E3' & _).
-  assert (HRng : sidx y < 65536).
-  { unfold emit_set_var in HC. rewrite SG in HC. apply emit_enc1 in HC; [|reflexivity]. destruct HC as [HR _]. lia. }
-  apply (CTL_straight st st' (ops ++ [(SetGlobal, sidx y)]) newc).
+  destruct (set_var_sl y st1 st' HC) as (E1' & E2' & E4' & E3' & HRng).
+  apply (CTL_straight st st' (ops ++ [(setop y, sidx y)]) newc).
+  - apply SX_eq. congruence.
   - congruence.
-  - unfold emit_set_var in HC. rewrite SG in HC. apply emit_breaks in HC. congruence.
   - unfold solid. rewrite map_app. apply aok_app; [exact A|]. constructor; [cbn; exact HRng|constructor].
   - rewrite E3', C, encode_app, app_assoc. reflexivity.
   - rewrite E2'. exact K.
+  - intros lc HLc. rewrite E1', S1 in HLc. pose proof (inv_lbw _ _ HI HLc) as HLB.
+    apply Forall_app. split; [apply L; exact HLB|]. constructor; [|constructor].
+    apply lopk_setvar. intro HS. apply (HLB n y ER HS).
   - intros nc gc k Hnc HG. eapply runs_app; [apply (R nc gc k); [rewrite <- E2'; exact Hnc|exact HG]|].
-    cbn [runs]. destruct (HG n y ER) as [_ HI]. rewrite sop_ok_setglobal by lia. reflexivity.
+    cbn [runs]. rewrite sop_ok_setvar; [reflexivity| |exact HRng]. intro HS. apply (HG n y ER HS).
+Qed.
+
+(* x := e inside a block: x becomes a local of the block's scope *)
+Lemma ctl_decl n e st st' : efrag e = true ->
+  compile_stmt true (SDecl n e) st = COk st' -> outers (csym st) <> [] -> Inv (csym st) -> has_gbw (csym st) -> CTL st st'.
+Proof.
+  intros HF HC HO HI HGB. cbn [compile_stmt] in HC.
+  destruct (compile_expr true e st) as [st1|] eqn:E1; [|discriminate]. cbn [bind] in HC.
+  destruct (expr_piece e st st1 HF E1 HGB) as (S1 & B1 & ops & newc & NE & A & C & K & R & L).
+  destruct (st_define n (csym st1)) as [sym' y] eqn:ED. rewrite S1 in ED.
+  assert (HD1 : fst (st_define n (csym st)) = sym') by (rewrite ED; reflexivity).
+  assert (HD2 : snd (st_define n (csym st)) = y) by (rewrite ED; reflexivity).
+  pose proof (define_local n (csym st) HO HI) as HLoc. rewrite HD2 in HLoc.
+  pose proof (define_below n (csym st) HI) as HBel. rewrite HD1, HD2 in HBel. specialize (HBel HLoc).
+  pose proof (SX_define n (csym st) HO HI) as SXd. rewrite HD1 in SXd.
+  destruct (set_var_sl y (with_sym sym' st1) st' HC) as (E1' & E2' & E4' & E3' & HRng).
+  cbn [with_sym csym ccode cconsts cbreaks] in E1', E2', E3', E4'.
+  apply (CTL_straight st st' (ops ++ [(setop y, sidx y)]) newc).
+  - rewrite E1'. exact SXd.
+  - congruence.
+  - unfold solid. rewrite map_app. apply aok_app; [exact A|]. constructor; [cbn; exact HRng|constructor].
+  - rewrite E3', C, encode_app, app_assoc. reflexivity.
+  - rewrite E2'. exact K.
+  - intros lc HLc. rewrite E1' in HLc. pose proof (sx_bound _ _ SXd) as HB2.
+    apply Forall_app. split; [apply L, inv_lbw; [exact HI|lia]|]. constructor; [|constructor].
+    apply lopk_setvar. intros _. lia.
+  - intros nc gc k Hnc HG. eapply runs_app; [apply (R nc gc k); [rewrite <- E2'; exact Hnc|exact HG]|].
+    cbn [runs]. rewrite sop_ok_setvar; [reflexivity| |exact HRng]. intro HS. congruence.
 Qed.
 
 Lemma pos_pcof st : pos_of st = Z.of_N (pcof st).
@@ -428,9 +496,9 @@ Proof. intro H. apply (runs_bok nc gc ops pc k k' H). Qed.
 
 (* while c / body / end *)
 Lemma ctl_while c b st st' : efrag c = true -> slist_ctl b ->
-  compile_stmt true (SWhile c b) st = COk st' -> gsym (csym st) -> has_gb (csym st) -> CTL st st'.
+  compile_stmt true (SWhile c b) st = COk st' -> Inv (csym st) -> has_gbw (csym st) -> CTL st st'.
 Proof.
-  intros HF HB HC HG HGB. cbn [compile_stmt] in HC.
+  intros HF HB HC HI HGB. cbn [compile_stmt] in HC.
   destruct (compile_expr true c st) as [st1|] eqn:E1; [|discriminate]. cbn [bind] in HC.
   destruct (emit true JumpOnFalse [JumpPlaceholderZ] st1) as [st2|] eqn:E2; [|discriminate]. cbn [bind] in HC.
   destruct (compile_block true b (with_breaks [] st2)) as [stb|] eqn:E3; [|discriminate]. cbn [bind] in HC.
@@ -439,11 +507,11 @@ Proof.
   destruct (patch_all true (cbreaks st3) (pos_of st3) st4) as [st5|] eqn:E6; [|discriminate]. cbn [bind] in HC.
   inversion HC; subst st'; clear HC.
   (* the pieces *)
-  destruct (expr_piece c st st1 HF E1 HGB) as (S1 & B1 & ops & newc & NE & A & C & K & R).
+  destruct (expr_piece c st st1 HF E1 HGB) as (S1 & B1 & ops & newc & NE & A & C & K & R & L).
   apply emit_hole in E2; [|reflexivity]. subst st2.
-  assert (HG2 : gsym (csym st1)) by (rewrite S1; exact HG).
-  assert (HGB2 : has_gb (csym st1)) by (rewrite S1; exact HGB).
-  pose proof (ctl_block b _ _ HB E3 HG2 HGB2) as (Sb & nb & cb & bb & Ab & Cb & Kb & Bb & NDb & Hb & Db).
+  assert (HG2 : Inv (csym st1)) by (rewrite S1; exact HI).
+  assert (HGB2 : has_gbw (csym st1)) by (rewrite S1; exact HGB).
+  pose proof (ctl_block b _ _ HB E3 HG2 HGB2) as (Sb & nb & cb & bb & Ab & Cb & Kb & Bb & NDb & Hb & Lb & Db).
   cbn [with_breaks ccode cconsts csym cbreaks app] in Sb, Cb, Kb, Bb.
   apply emit_jump_to in E4. destruct E4 as [HRs ->].
   set (W := solid ops ++ ((true, (JumpOnFalse, 9999)) :: (nb ++ [(false, (Jump, pcof st))]))) in *.
@@ -466,7 +534,7 @@ Proof.
   { unfold W. rewrite strip_app, total_len_app, strip_solid, strip_cons, total_len_cons, strip_app, total_len_app.
     change (ilen_of (JumpOnFalse, 9999)) with 3. change (total_len (strip [(false, (Jump, pcof st))])) with (3 + 0). lia. }
   (* BOK of the unpatched loop, for all parameters *)
-  assert (BW : forall nc gc k, N.of_nat (List.length (cconsts stb)) <= nc -> globals_below (csym st) gc ->
+  assert (BW : forall nc gc k, N.of_nat (List.length (cconsts stb)) <= nc -> gbw (csym st) gc ->
             BOK nc gc W (pcof st) (AH k) (AH k) /\
             forall p ra, In (p, ra) (holes nc gc W (pcof st) (AH k)) -> ra = AH k /\ (p = jof \/ In p bb)).
   { intros nc gc k Hnc HGl.
@@ -474,7 +542,7 @@ Proof.
     pose proof (R nc gc k Hnc1 HGl) as Rc.
     destruct (runs_bok nc gc ops (pcof st) k (k + 1) Rc) as [BKc HHc].
     destruct (bok_hole_jof nc gc jof k) as [BKj HHj].
-    assert (HGl1 : globals_below (csym st1) gc) by (rewrite S1; exact HGl).
+    assert (HGl1 : gbw (csym st1) gc) by (rewrite S1; exact HGl).
     destruct (Db nc gc k Hnc HGl1) as [BKb HLb].
     assert (BK3 : BOK nc gc (solid ops ++ [(true, (JumpOnFalse, 9999))] ++ nb) (pcof st) (AH k) (AH k)).
     { eapply bok_app; [exact BKc|]. rewrite strip_solid. fold jof.
@@ -523,10 +591,14 @@ Proof.
   { unfold T, TZ. rewrite pos_pcof, N2Z.id. unfold pcof at 1. cbn [ccode]. rewrite CW, app_length, Nat2N.inj_add, (aok_len W AW). reflexivity. }
   (* assemble *)
   unfold CTL. cbn [with_breaks ccode cconsts csym cbreaks].
-  split; [congruence|].
+  split; [rewrite <- S1; exact Sb|].
   exists (fill (bb ++ [jof]) T W (pcof st)), (newc ++ cb), [].
   split; [apply aok_fill; assumption|]. split; [reflexivity|]. split; [rewrite Kb, K, app_assoc; reflexivity|].
   split; [cbn [map]; rewrite app_nil_r; exact B1|]. split; [constructor|]. split; [intros p []|].
+  split.
+  { intros lc HLc. apply lok_fill. unfold W. pose proof (sx_bound _ _ Sb) as HB2. rewrite S1 in HB2.
+    apply lok_app; [apply lok_solid, L, inv_lbw; [exact HI|lia]|].
+    apply lok_cons; [reflexivity|]. apply lok_app; [apply Lb; exact HLc|apply lok_one; reflexivity]. }
   intros nc gc k Hnc HGl. cbn [cconsts] in Hnc. destruct (BW nc gc k Hnc HGl) as [BKW HLW].
   assert (BF : BOK nc gc (fill (bb ++ [jof]) T W (pcof st)) (pcof st) (AH k) (AH k)).
   { apply bok_fill; [exact HTN|exact BKW|]. intros p ra Hin _. left. destruct (HLW _ _ Hin). split; [exact ET|assumption]. }
@@ -538,12 +610,13 @@ Qed.
 
 (* ---------- for loops without a loop variable ---------- *)
 Definition LOOPOK (S : N) (st st' : cstate) : Prop :=
-  csym st' = csym st /\ cbreaks st' = cbreaks st /\
+  SX (csym st) (csym st') /\ cbreaks st' = cbreaks st /\
   exists new newc,
     AOK new /\
     ccode st' = ccode st ++ encode (strip new) /\
     cconsts st' = cconsts st ++ newc /\
-    forall nc gc k, N.of_nat (List.length (cconsts st')) <= nc -> globals_below (csym st) gc ->
+    (forall lc, bound (csym st') <= lc -> LOK lc new) /\
+    forall nc gc k, N.of_nat (List.length (cconsts st')) <= nc -> gbw (csym st) gc ->
       BOK nc gc new (pcof st) (AH (k + S)) (AH k) /\ holes nc gc new (pcof st) (AH (k + S)) = [].
 
 Definition range_op (rop : opc) (S : N) : Prop := (rop = StepRange /\ S = 3) \/ (rop = IterRange /\ S = 2).
@@ -565,9 +638,9 @@ Proof.
 Qed.
 
 Lemma for_loop_ok rop S b st st' : range_op rop S -> slist_ctl b ->
-  for_loop true None rop (Z.of_N S) b st = COk st' -> gsym (csym st) -> has_gb (csym st) -> LOOPOK S st st'.
+  for_loop true None rop (Z.of_N S) b st = COk st' -> Inv (csym st) -> has_gbw (csym st) -> LOOPOK S st st'.
 Proof.
-  intros HRO HB HC HG HGB.
+  intros HRO HB HC HI HGB.
   assert (HS : S < 65536) by (destruct HRO as [[_ ->]|[_ ->]]; lia).
   assert (HCb : for_loop true None rop (Z.of_N S) b st =
     (emit true rop [0%Z] st >>= fun st2 =>
@@ -592,10 +665,11 @@ Proof.
   destruct (step_range_op 0 0 rop S 0 HRO) as (_ & _ & HOr & HJr).
   apply emit_enc1 in E1; [|exact HOr]. destruct E1 as [_ ->]. change (Z.to_N 0) with 0 in *.
   apply emit_hole in E2; [|reflexivity]. subst st3. cbn [ccode cconsts csym cbreaks] in *.
-  assert (HG3 : gsym (st_push (csym st))) by (apply gsym_push; exact HG).
-  assert (HGB3 : has_gb (st_push (csym st))) by (apply has_gb_push; exact HGB).
-  pose proof (HB _ _ E3 HG3 HGB3) as (Sb & nb & cb & bb & Ab & Cb & Kb & Bb & NDb & Hb & Db).
-  unfold with_sym, with_breaks in Sb, Cb, Kb, Bb, Hb, Db. cbn [ccode cconsts csym cbreaks app] in Sb, Cb, Kb, Bb, Hb, Db.
+  assert (HG3 : Inv (st_push (csym st))) by (apply inv_push; exact HI).
+  assert (HGB3 : has_gbw (st_push (csym st))) by (apply has_gbw_push; exact HGB).
+  assert (HO3 : outers (st_push (csym st)) <> []) by discriminate.
+  pose proof (HB _ _ E3 HO3 HG3 HGB3) as (Sb & nb & cb & bb & Ab & Cb & Kb & Bb & NDb & Hb & Lb & Db).
+  unfold with_sym, with_breaks in Sb, Cb, Kb, Bb, Hb, Lb, Db. cbn [ccode cconsts csym cbreaks app] in Sb, Cb, Kb, Bb, Hb, Lb, Db.
   apply emit_jump_to in E4. destruct E4 as [HRs ->]. unfold with_sym in E5, E6, E7. cbn [ccode cconsts csym cbreaks] in E5, E6, E7.
   apply emit_enc1 in E5; [|reflexivity]. destruct E5 as [_ ->]. rewrite N2Z.id in *. cbn [ccode cconsts csym cbreaks] in E6, E7.
   set (pc0 := pcof st) in *.
@@ -624,7 +698,7 @@ Proof.
     rewrite !encode_strip_app. cbn [strip map snd]. rewrite !encode_one, <- !app_assoc. reflexivity. }
   set (endp := pc0 + total_len (strip W0)).
   (* BOK of the unpatched loop *)
-  assert (BW : forall nc gc k, N.of_nat (List.length (cconsts st4)) <= nc -> globals_below (csym st) gc ->
+  assert (BW : forall nc gc k, N.of_nat (List.length (cconsts st4)) <= nc -> gbw (csym st) gc ->
             BOK nc gc W pc0 (AH (k + S)) (AH k) /\
             In (endp, AH (k + S)) (jannot nc gc (strip W) pc0 (AH (k + S))) /\
             forall p ra, In (p, ra) (holes nc gc W pc0 (AH (k + S))) -> ra = AH (k + S) /\ (p = jof \/ In p bb)).
@@ -635,7 +709,7 @@ Proof.
     assert (HH1 : holes nc gc [(false, (rop, 0))] pc0 (AH (k + S)) = []).
     { cbn [holes]. rewrite ST1. reflexivity. }
     destruct (bok_hole_jof nc gc jof (k + S)) as [BKj HHj].
-    assert (HGl3 : globals_below (st_push (csym st)) gc) by (apply globals_below_push; exact HGl).
+    assert (HGl3 : gbw (st_push (csym st)) gc) by (apply gbw_push; exact HGl).
     destruct (Db nc gc (k + S) Hnc HGl3) as [BKb HLb].
     assert (L1 : pc0 + total_len (strip [(false, (rop, 0))]) = jof).
     { cbn [strip map snd]. rewrite total_len_cons. unfold total_len, ilen_of, jof. cbn [fst fold_right]. rewrite HOr. lia. }
@@ -702,9 +776,14 @@ Proof.
       rewrite !encode_strip_app. cbn [strip map snd]. rewrite !encode_one, <- !app_assoc. reflexivity. }
     rewrite X, app_length, Nat2N.inj_add, (aok_len W0 AW0). reflexivity. }
   unfold LOOPOK. cbn [with_breaks ccode cconsts csym cbreaks]. fold pc0.
-  split; [rewrite Sb; apply pop_push_id; exact HG|]. split; [reflexivity|].
+  split; [apply SX_block; exact Sb|]. split; [reflexivity|].
   exists (fill (bb ++ [jof]) T W pc0), cb.
   split; [apply aok_fill; assumption|]. split; [reflexivity|]. split; [exact Kb|].
+  split.
+  { intros lc HLc. pose proof (bound_step SPop (csym st4)) as X. cbn [st_step fst] in X.
+    apply lok_fill. unfold W, W0. apply lok_app; [|apply lok_one; reflexivity].
+    apply lok_cons; [destruct HRO as [[-> _]|[-> _]]; reflexivity|]. apply lok_cons; [reflexivity|].
+    apply lok_app; [apply Lb; lia|apply lok_one; reflexivity]. }
   intros nc gc k Hnc HGl. destruct (BW nc gc k Hnc HGl) as (BKW & HEND & HLW).
   split.
   - apply bok_fill; [exact HTN|exact BKW|]. intros p ra Hin _. right. destruct (HLW _ _ Hin) as [-> _]. rewrite ET. exact HEND.
@@ -716,7 +795,7 @@ Qed.
 
 (* ---------- if / else-if / else: pending end-of-if jumps besides the breaks ---------- *)
 Definition CTLx (xs : list N) (st st' : cstate) : Prop :=
-  csym st' = csym st /\
+  SX (csym st) (csym st') /\
   exists new newc newb,
     AOK new /\
     ccode st' = ccode st ++ encode (strip new) /\
@@ -724,29 +803,30 @@ Definition CTLx (xs : list N) (st st' : cstate) : Prop :=
     cbreaks st' = cbreaks st ++ map Z.of_N newb /\
     NoDup newb /\ NoDup xs /\ (forall p, In p newb -> ~ In p xs) /\
     (forall p, In p (newb ++ xs) -> hole_at new (pcof st) p) /\
-    forall nc gc k, N.of_nat (List.length (cconsts st')) <= nc -> globals_below (csym st) gc ->
+    (forall lc, bound (csym st') <= lc -> LOK lc new) /\
+    forall nc gc k, N.of_nat (List.length (cconsts st')) <= nc -> gbw (csym st) gc ->
       BOK nc gc new (pcof st) (AH k) (AH k) /\
       forall p ra, In (p, ra) (holes nc gc new (pcof st) (AH k)) -> ra = AH k /\ In p (newb ++ xs).
 
 Lemma ctlx_of_ctl st st' : CTL st st' -> CTLx [] st st'.
 Proof.
-  intros (S & new & newc & newb & A & C & K & B & ND & H & D). split; [exact S|].
+  intros (S & new & newc & newb & A & C & K & B & ND & H & L & D). split; [exact S|].
   exists new, newc, newb. repeat (split; [assumption|]). split; [constructor|]. split; [intros p _ []|].
-  split; [intros p Hp; rewrite app_nil_r in Hp; auto|].
+  split; [intros p Hp; rewrite app_nil_r in Hp; auto|]. split; [exact L|].
   intros nc gc k Hnc HG. destruct (D nc gc k Hnc HG) as [BK HL]. split; [exact BK|].
   intros p ra Hin. rewrite app_nil_r. auto.
 Qed.
 
 Lemma ctlx_trans x1 x2 st st1 st2 : CTLx x1 st st1 -> CTLx x2 st1 st2 -> CTLx (x1 ++ x2) st st2.
 Proof.
-  intros (S1 & n1 & c1 & b1 & A1 & C1 & K1 & B1 & ND1 & NX1 & DJ1 & H1 & D1)
-         (S2 & n2 & c2 & b2 & A2 & C2 & K2 & B2 & ND2 & NX2 & DJ2 & H2 & D2).
+  intros (S1 & n1 & c1 & b1 & A1 & C1 & K1 & B1 & ND1 & NX1 & DJ1 & H1 & L1 & D1)
+         (S2 & n2 & c2 & b2 & A2 & C2 & K2 & B2 & ND2 & NX2 & DJ2 & H2 & L2 & D2).
   pose proof (pcof_app st st1 n1 C1 A1) as HP.
   assert (R1 : forall p, In p (b1 ++ x1) -> pcof st <= p < pcof st1).
   { intros p Hp. apply H1 in Hp. apply hole_at_range in Hp. lia. }
   assert (R2 : forall p, In p (b2 ++ x2) -> pcof st1 <= p).
   { intros p Hp. apply H2 in Hp. apply hole_at_range in Hp. lia. }
-  split; [congruence|]. exists (n1 ++ n2), (c1 ++ c2), (b1 ++ b2).
+  split; [eapply SX_trans; eauto|]. exists (n1 ++ n2), (c1 ++ c2), (b1 ++ b2).
   split; [apply aok_app; assumption|].
   split; [rewrite C2, C1, strip_app; unfold encode; rewrite flat_map_app, app_assoc; reflexivity|].
   split; [rewrite K2, K1, app_assoc; reflexivity|].
@@ -770,10 +850,12 @@ Proof.
         [left|right|left|right]; apply in_or_app; auto. }
     - apply hole_at_app_l. apply H1. exact Hq.
     - apply hole_at_app_r. rewrite <- HP. apply H2. exact Hq. }
+  split.
+  { intros lc HLc. pose proof (sx_bound _ _ S2). apply lok_app; [apply L1; lia|apply L2; exact HLc]. }
   intros nc gc k Hnc HG.
   assert (Hnc1 : N.of_nat (List.length (cconsts st1)) <= nc) by (rewrite K2, app_length in Hnc; lia).
   destruct (D1 nc gc k Hnc1 HG) as [BK1 HL1].
-  assert (HG1 : globals_below (csym st1) gc) by (rewrite S1; exact HG).
+  assert (HG1 : gbw (csym st1) gc) by (apply (sx_gbw _ _ S1); exact HG).
   destruct (D2 nc gc k Hnc HG1) as [BK2 HL2]. rewrite HP in BK2, HL2.
   split; [eapply bok_app; eauto|].
   intros p ra Hin. rewrite (holes_app nc gc n1 n2 (pcof st) (AH k) (AH k) (proj1 BK1)) in Hin.
@@ -785,10 +867,10 @@ Proof.
 Qed.
 
 (* closing the if: all end jumps are patched to the end of the statement *)
-Lemma ctlx_close xs st st3 st' : has_gb (csym st) -> CTLx xs st st3 ->
+Lemma ctlx_close xs st st3 st' : has_gbw (csym st) -> CTLx xs st st3 ->
   patch_all true (map Z.of_N xs) (pos_of st3) st3 = COk st' -> CTL st st'.
 Proof.
-  intros (gc0 & HG0) (S & new & newc & newb & A & C & K & B & ND & NX & DJ & H & D) HP.
+  intros (gc0 & HG0) (S & new & newc & newb & A & C & K & B & ND & NX & DJ & H & L & D) HP.
   destruct (D (N.of_nat (List.length (cconsts st3))) gc0 0 (N.le_refl _) HG0) as [[RW _] _].
   eapply (patch_all_fill _ _ _ xs _ st' new (ccode st) (AH 0) (AH 0) NX C RW) in HP.
   2:{ intros p Hp. apply H. apply in_or_app. right. exact Hp. }
@@ -800,7 +882,7 @@ Proof.
   destruct xs as [|x0 xs'].
   - rewrite fill_nil. exists new, newc, newb.
     split; [exact A|]. split; [reflexivity|]. split; [exact K|]. split; [exact B|]. split; [exact ND|].
-    split; [intros p Hp; apply H; apply in_or_app; left; exact Hp|].
+    split; [intros p Hp; apply H; apply in_or_app; left; exact Hp|]. split; [exact L|].
     intros nc gc k Hnc HG. destruct (D nc gc k Hnc HG) as [BK HL]. split; [exact BK|].
     intros p ra Hin. destruct (HL _ _ Hin) as [E Hq]. rewrite app_nil_r in Hq. auto.
   - assert (HTN : T < 65536) by (unfold T; specialize (HT ltac:(discriminate)); lia).
@@ -808,6 +890,7 @@ Proof.
     split; [apply aok_fill; assumption|]. split; [reflexivity|]. split; [exact K|]. split; [exact B|]. split; [exact ND|].
     split.
     { intros p Hp. apply hole_at_fill_sel; [apply DJ; exact Hp|]. apply H. apply in_or_app. left. exact Hp. }
+    split; [intros lc HLc; apply lok_fill, L, HLc|].
     intros nc gc k Hnc HG. destruct (D nc gc k Hnc HG) as [BK HL]. split.
     + apply bok_fill; [exact HTN|exact BK|]. intros p ra Hin _. left. destruct (HL _ _ Hin). split; [exact ET|assumption].
     + intros p ra Hin.
@@ -830,20 +913,21 @@ Proof. destruct b; reflexivity. Qed.
 
 (* one `cond / block` of an if statement: leaves its end jump pending *)
 Lemma ctl_cond c b st st' : efrag c = true -> slist_ctl b ->
-  compile_cond true c b st = COk st' -> gsym (csym st) -> has_gb (csym st) ->
+  compile_cond true c b st = COk st' -> Inv (csym st) -> has_gbw (csym st) ->
   exists ej, Z.of_N ej = (pos_of st' - 3)%Z /\ CTLx [ej] st st'.
 Proof.
-  intros HF HB HC HG HGB. rewrite compile_cond_body in HC.
+  intros HF HB HC HI HGB. rewrite compile_cond_body in HC.
   destruct (compile_expr true c st) as [st1|] eqn:E1; [|discriminate]. cbn [bind] in HC.
   destruct (emit true JumpOnFalse [JumpPlaceholderZ] st1) as [st2|] eqn:E2; [|discriminate]. cbn [bind] in HC.
   destruct (body_of true b (with_sym (st_push (csym st2)) st2)) as [st3|] eqn:E3; [|discriminate]. cbn [bind] in HC.
   destruct (emit true Jump [JumpPlaceholderZ] (with_sym (st_pop (csym st3)) st3)) as [st4|] eqn:E4; [|discriminate]. cbn [bind] in HC.
-  destruct (expr_piece c st st1 HF E1 HGB) as (S1 & B1 & ops & newc & NE & A & C & K & R).
+  destruct (expr_piece c st st1 HF E1 HGB) as (S1 & B1 & ops & newc & NE & A & C & K & R & L).
   apply emit_hole in E2; [|reflexivity]. subst st2. cbn [csym] in E3.
-  assert (HG3 : gsym (st_push (csym st1))) by (apply gsym_push; rewrite S1; exact HG).
-  assert (HGB3 : has_gb (st_push (csym st1))) by (apply has_gb_push; rewrite S1; exact HGB).
-  pose proof (HB _ _ E3 HG3 HGB3) as (Sb & nb & cb & bb & Ab & Cb & Kb & Bb & NDb & Hb & Db).
-  unfold with_sym in Sb, Cb, Kb, Bb, Hb, Db. cbn [ccode cconsts csym cbreaks] in Sb, Cb, Kb, Bb, Hb, Db.
+  assert (HG3 : Inv (st_push (csym st1))) by (apply inv_push; rewrite S1; exact HI).
+  assert (HGB3 : has_gbw (st_push (csym st1))) by (apply has_gbw_push; rewrite S1; exact HGB).
+  assert (HO3 : outers (st_push (csym st1)) <> []) by discriminate.
+  pose proof (HB _ _ E3 HO3 HG3 HGB3) as (Sb & nb & cb & bb & Ab & Cb & Kb & Bb & NDb & Hb & Lb & Db).
+  unfold with_sym in Sb, Cb, Kb, Bb, Hb, Lb, Db. cbn [ccode cconsts csym cbreaks] in Sb, Cb, Kb, Bb, Hb, Lb, Db.
   apply emit_hole in E4; [|reflexivity]. subst st4. unfold with_sym in HC. cbn [ccode cconsts csym cbreaks] in HC.
   set (pc0 := pcof st) in *.
   set (W := solid ops ++ ((true, (JumpOnFalse, 9999)) :: (nb ++ [(true, (Jump, 9999))]))) in *.
@@ -866,7 +950,7 @@ Proof.
   assert (TW : total_len (strip W) = total_len ops + 3 + total_len (strip nb) + 3).
   { unfold W. rewrite strip_app, total_len_app, strip_solid, strip_cons, total_len_cons, strip_app, total_len_app.
     change (ilen_of (JumpOnFalse, 9999)) with 3. change (total_len (strip [(true, (Jump, 9999))])) with (3 + 0). lia. }
-  assert (BW : forall nc gc k, N.of_nat (List.length (cconsts st3)) <= nc -> globals_below (csym st) gc ->
+  assert (BW : forall nc gc k, N.of_nat (List.length (cconsts st3)) <= nc -> gbw (csym st) gc ->
             BOK nc gc W pc0 (AH k) (AH k) /\
             forall p ra, In (p, ra) (holes nc gc W pc0 (AH k)) -> ra = AH k /\ (p = jof \/ In p bb \/ p = ej)).
   { intros nc gc k Hnc HGl.
@@ -874,7 +958,7 @@ Proof.
     pose proof (R nc gc k Hnc1 HGl) as Rc.
     destruct (runs_bok nc gc ops pc0 k (k + 1) Rc) as [BKc HHc].
     destruct (bok_hole_jof nc gc jof k) as [BKj HHj].
-    assert (HGl3 : globals_below (st_push (csym st1)) gc) by (apply globals_below_push; rewrite S1; exact HGl).
+    assert (HGl3 : gbw (st_push (csym st1)) gc) by (apply gbw_push; rewrite S1; exact HGl).
     destruct (Db nc gc k Hnc HGl3) as [BKb HLb].
     destruct (bok_hole_jump nc gc ej k) as [BKe HHe].
     assert (L2 : jof + total_len (strip [(true, (JumpOnFalse, 9999))]) = bstart).
@@ -923,7 +1007,7 @@ Proof.
     destruct (fill_frame _ _ [jof] T HTN W pc0 (AH 0) (AH 0) RW) as (_ & _ & TL).
     rewrite (aok_len _ (aok_fill [jof] T HTN W pc0 AW)), TL, TW. unfold ej, bstart, jof. lia.
   - unfold CTLx. cbn [ccode cconsts csym cbreaks]. fold pc0.
-    split; [rewrite Sb, S1; apply pop_push_id; exact HG|].
+    split; [rewrite <- S1; apply SX_block; exact Sb|].
     exists (fill [jof] T W pc0), (newc ++ cb), bb.
     split; [apply aok_fill; assumption|]. split; [reflexivity|]. split; [rewrite Kb, K, app_assoc; reflexivity|].
     split; [rewrite Bb, B1; reflexivity|]. split; [exact NDb|]. split; [constructor; [intros []|constructor]|].
@@ -935,6 +1019,11 @@ Proof.
         + pose proof (hole_at_range _ _ _ (Hb _ Hp)). unfold bstart in *. lia.
         + unfold ej, bstart in Eq. lia.
       - apply in_app_or in Hp. destruct Hp as [Hp|[<-|[]]]; [apply HBs; exact Hp|exact HE]. }
+    split.
+    { intros lc HLc. pose proof (bound_step SPop (csym st3)) as X. cbn [st_step fst] in X.
+      pose proof (sx_bound _ _ Sb) as X2. pose proof (bound_step SPush (csym st1)) as X3. cbn [st_step fst] in X3.
+      apply lok_fill. unfold W. apply lok_app; [apply lok_solid, L, inv_lbw; [exact HI|rewrite <- S1; lia]|].
+      apply lok_cons; [reflexivity|]. apply lok_app; [apply Lb; lia|apply lok_one; reflexivity]. }
     intros nc gc k Hnc HGl. destruct (BW nc gc k Hnc HGl) as [BKW HLW]. split.
     + apply bok_fill; [exact HTN|exact BKW|]. intros p ra Hin _. left. destruct (HLW _ _ Hin). split; [exact ET|assumption].
     + intros p ra Hin.
@@ -943,318 +1032,7 @@ Proof.
         (split; [exact E|apply in_or_app]); [left; exact Hp|right; left; reflexivity].
 Qed.
 
-(* ---------- a straight-line prefix followed by a loop ---------- *)
-Lemma CTL_of_loop S st st1 st' ops newc :
-  csym st1 = csym st -> cbreaks st1 = cbreaks st -> AOK (solid ops) ->
-  ccode st1 = ccode st ++ encode ops -> cconsts st1 = cconsts st ++ newc ->
-  (forall nc gc k, N.of_nat (List.length (cconsts st1)) <= nc -> globals_below (csym st) gc -> runs nc gc ops k = Some (k + S)) ->
-  LOOPOK S st1 st' -> CTL st st'.
-Proof.
-  intros S1 B1 A C K R (S2 & B2 & new & newc2 & A2 & C2 & K2 & D2).
-  pose proof (pcof_app st st1 (solid ops)) as HP. rewrite strip_solid in HP. specialize (HP C A).
-  split; [congruence|]. exists (solid ops ++ new), (newc ++ newc2), [].
-  split; [apply aok_app; assumption|].
-  split; [rewrite C2, C, encode_strip_app, strip_solid, app_assoc; reflexivity|].
-  split; [rewrite K2, K, app_assoc; reflexivity|].
-  split; [cbn [map]; rewrite app_nil_r; congruence|]. split; [constructor|]. split; [intros p []|].
-  intros nc gc k Hnc HG.
-  assert (Hnc1 : N.of_nat (List.length (cconsts st1)) <= nc) by (rewrite K2, app_length in Hnc; lia).
-  destruct (runs_bok nc gc ops (pcof st) k (k + S) (R nc gc k Hnc1 HG)) as [BK1 HH1].
-  assert (HG1 : globals_below (csym st1) gc) by (rewrite S1; exact HG).
-  destruct (D2 nc gc k Hnc HG1) as [BK2 HH2]. rewrite HP in BK2, HH2.
-  split.
-  - eapply bok_app; [exact BK1|]. rewrite strip_solid. exact BK2.
-  - intros p ra Hin. apply (holes_app_in nc gc (solid ops) new (pcof st) _ _ _ (proj1 BK1)) in Hin.
-    rewrite HH1, strip_solid, HH2 in Hin. destruct Hin as [[]|[]].
-Qed.
-
-(* ---------- the fragment ---------- *)
-Definition ofrag (o : oexpr) : bool := match o with ONoneE => true | OSome e => efrag e end.
-
-Fixpoint cfrag_stmt (s : stmt) : bool :=
-  match s with
-  | SAssign (EVar _) e => efrag e
-  | SEmpty | SBreak => true
-  | SIf c b elifs els =>
-      efrag c && cfrag_slist b && cfrag_clist elifs &&
-      match els with NoElse => true | Else eb => cfrag_slist eb end
-  | SWhile c b => efrag c && cfrag_slist b
-  | SForStep None start stop step b => ofrag start && efrag stop && ofrag step && cfrag_slist b
-  | SForIter None t e b => match t with TStr | TArr | TMap => efrag e && cfrag_slist b | _ => false end
-  | _ => false
-  end
-with cfrag_slist (l : slist) : bool :=
-  match l with SNil => true | SCons s t => cfrag_stmt s && cfrag_slist t end
-with cfrag_clist (l : clist) : bool :=
-  match l with CNil => true | CCons c b t => efrag c && cfrag_slist b && cfrag_clist t end.
-
-Lemma ofrag_expr o d : ofrag o = true -> efrag (match o with OSome e => e | ONoneE => ENum d end) = true.
-Proof. destruct o; simpl; auto. Qed.
-
-Lemma ctl_forstep start stop step b st st' :
-  ofrag start = true -> efrag stop = true -> ofrag step = true -> slist_ctl b ->
-  compile_stmt true (SForStep None start stop step b) st = COk st' -> gsym (csym st) -> has_gb (csym st) -> CTL st st'.
-Proof.
-  intros F1 F2 F3 HB HC HG HGB. cbn [compile_stmt] in HC.
-  destruct (compile_expr true stop st) as [s1|] eqn:E1; [|discriminate]. cbn [bind] in HC.
-  destruct (compile_expr true (match step with OSome e => e | ONoneE => ENum 1 end) s1) as [s2|] eqn:E2; [|discriminate]. cbn [bind] in HC.
-  destruct (compile_expr true (match start with OSome e => e | ONoneE => ENum 0 end) s2) as [s3|] eqn:E3; [|discriminate]. cbn [bind] in HC.
-  destruct (expr_piece _ _ _ F2 E1 HGB) as (S1 & B1 & o1 & c1 & _ & A1 & C1 & K1 & R1).
-  assert (HGB1 : has_gb (csym s1)) by (rewrite S1; exact HGB).
-  destruct (expr_piece _ _ _ (ofrag_expr step 1 F3) E2 HGB1) as (S2 & B2 & o2 & c2 & _ & A2 & C2 & K2 & R2).
-  assert (HGB2 : has_gb (csym s2)) by (rewrite S2, S1; exact HGB).
-  destruct (expr_piece _ _ _ (ofrag_expr start 0 F1) E3 HGB2) as (S3 & B3 & o3 & c3 & _ & A3 & C3 & K3 & R3).
-  assert (HG3 : gsym (csym s3)) by (rewrite S3, S2, S1; exact HG).
-  assert (HGB3 : has_gb (csym s3)) by (rewrite S3, S2, S1; exact HGB).
-  pose proof (for_loop_ok StepRange 3 b s3 st' (or_introl (conj eq_refl eq_refl)) HB HC HG3 HGB3) as HL.
-  apply (CTL_of_loop 3 st s3 st' (o1 ++ o2 ++ o3) (c1 ++ c2 ++ c3)); try congruence.
-  - unfold solid. rewrite !map_app. apply aok_app; [exact A1|]. apply aok_app; [exact A2|exact A3].
-  - rewrite C3, C2, C1, !encode_app, <- !app_assoc. reflexivity.
-  - rewrite K3, K2, K1, <- !app_assoc. reflexivity.
-  - intros nc gc k Hnc HGl.
-    assert (N1 : N.of_nat (List.length (cconsts s1)) <= nc) by (rewrite K3, K2, !app_length in Hnc; lia).
-    assert (N2 : N.of_nat (List.length (cconsts s2)) <= nc) by (rewrite K3, !app_length in Hnc; lia).
-    eapply runs_app; [apply (R1 nc gc k N1 HGl)|].
-    eapply runs_app; [apply (R2 nc gc (k + 1) N2); rewrite S1; exact HGl|].
-    replace (k + 3) with (k + 1 + 1 + 1) by lia. apply (R3 nc gc (k + 1 + 1) Hnc). rewrite S2, S1. exact HGl.
-Qed.
-
-Lemma ctl_foriter t e b st st' :
-  (t = TStr \/ t = TArr \/ t = TMap) -> efrag e = true -> slist_ctl b ->
-  compile_stmt true (SForIter None t e b) st = COk st' -> gsym (csym st) -> has_gb (csym st) -> CTL st st'.
-Proof.
-  intros Ht F HB HC HG HGB. cbn [compile_stmt] in HC.
-  assert (HC' : compile_expr true e st >>= emit_const true (KNum 0) >>= for_loop true None IterRange 2 b = COk st')
-    by (destruct Ht as [->|[->| ->]]; exact HC). clear HC.
-  destruct (compile_expr true e st) as [s1|] eqn:E1; [|discriminate]. cbn [bind] in HC'.
-  destruct (emit_const true (KNum 0) s1) as [s2|] eqn:E2; [|discriminate]. cbn [bind] in HC'.
-  destruct (expr_piece _ _ _ F E1 HGB) as (S1 & B1 & o1 & c1 & _ & A1 & C1 & K1 & R1).
-  destruct (const_sl _ _ _ E2) as (RI & S2 & C2 & K2).
-  assert (B2 : cbreaks s2 = cbreaks s1) by (unfold emit_const in E2; apply emit_breaks in E2; exact E2).
-  assert (HG2 : gsym (csym s2)) by (rewrite S2, S1; exact HG).
-  assert (HGB2 : has_gb (csym s2)) by (rewrite S2, S1; exact HGB).
-  pose proof (for_loop_ok IterRange 2 b s2 st' (or_intror (conj eq_refl eq_refl)) HB HC' HG2 HGB2) as HL.
-  apply (CTL_of_loop 2 st s2 st' (o1 ++ [(Constant, N.of_nat (List.length (cconsts s1)))]) (c1 ++ [KNum 0])); try congruence.
-  - unfold solid. rewrite map_app. apply aok_app; [exact A1|]. constructor; [cbn; exact RI|constructor].
-  - rewrite C2, C1, !encode_app, <- !app_assoc. reflexivity.
-  - rewrite K2, K1, <- !app_assoc. reflexivity.
-  - intros nc gc k Hnc HGl.
-    assert (N1 : N.of_nat (List.length (cconsts s1)) <= nc) by (rewrite K2, !app_length in Hnc; lia).
-    eapply runs_app; [apply (R1 nc gc k N1 HGl)|]. cbn [runs].
-    rewrite sop_ok_const; [f_equal; lia| |exact RI]. rewrite K2, app_length in Hnc. simpl in Hnc. lia.
-Qed.
-
-(* ---------- the mutual induction ---------- *)
-Definition clist_ctl (l : clist) : Prop :=
-  forall jumps st st' jumps', compile_elifs true l jumps st = (COk st', jumps') ->
-    gsym (csym st) -> has_gb (csym st) ->
-    exists xs, jumps' = jumps ++ map Z.of_N xs /\ CTLx xs st st'.
-
-Lemma ctl_if c b elifs els st st' :
-  efrag c = true -> slist_ctl b -> clist_ctl elifs ->
-  (match els with NoElse => True | Else eb => slist_ctl eb end) ->
-  compile_stmt true (SIf c b elifs els) st = COk st' -> gsym (csym st) -> has_gb (csym st) -> CTL st st'.
-Proof.
-  intros F HB HE HL HC HG HGB. cbn [compile_stmt] in HC.
-  destruct (compile_cond true c b st) as [st1|] eqn:E1; [|discriminate]. cbn [bind] in HC.
-  destruct (ctl_cond c b st st1 F HB E1 HG HGB) as (ej & Eej & X1).
-  destruct (compile_elifs true elifs [(pos_of st1 - 3)%Z] st1) as [r jumps] eqn:E2.
-  destruct r as [st2|]; [|discriminate]. cbn [bind] in HC.
-  assert (HG1 : gsym (csym st1)) by (rewrite (proj1 X1); exact HG).
-  assert (HGB1 : has_gb (csym st1)) by (rewrite (proj1 X1); exact HGB).
-  destruct (HE _ _ _ _ E2 HG1 HGB1) as (xs & EJ & X2).
-  assert (HG2 : gsym (csym st2)) by (rewrite (proj1 X2); exact HG1).
-  assert (HGB2 : has_gb (csym st2)) by (rewrite (proj1 X2); exact HGB1).
-  assert (X3 : exists st3, (match els with NoElse => COk st2 | Else eb => compile_block true eb st2 end) = COk st3 /\
-                           CTL st2 st3 /\ patch_all true jumps (pos_of st3) st3 = COk st').
-  { destruct els as [|eb].
-    - cbn [bind] in HC. exists st2. split; [reflexivity|]. split; [apply CTL_refl|exact HC].
-    - destruct (compile_block true eb st2) as [st3|] eqn:E3; [|discriminate]. cbn [bind] in HC.
-      exists st3. split; [reflexivity|]. split; [apply (ctl_block eb st2 st3 HL E3 HG2 HGB2)|exact HC]. }
-  destruct X3 as (st3 & _ & X3 & HP).
-  pose proof (ctlx_trans _ _ _ _ _ X1 (ctlx_trans _ _ _ _ _ X2 (ctlx_of_ctl _ _ X3))) as XA.
-  eapply (ctlx_close _ st st3 st' HGB XA).
-  rewrite EJ, <- Eej in HP. rewrite app_nil_r. exact HP.
-Qed.
-
-Theorem ctl_all :
-  (forall s, cfrag_stmt s = true -> forall st st', compile_stmt true s st = COk st' ->
-             gsym (csym st) -> has_gb (csym st) -> CTL st st') /\
-  (forall l, cfrag_slist l = true -> slist_ctl l) /\
-  (forall l, cfrag_clist l = true -> clist_ctl l) /\
-  (forall o, match o with NoElse => True | Else b => cfrag_slist b = true -> slist_ctl b end).
-Proof.
-  apply stmt_mutind.
-  - (* SDecl *) intros n e HF. discriminate.
-  - (* SAssign *) intros target e HF st st' HC HG HGB. destruct target; try discriminate HF.
-    apply (ctl_assign n e st st' HF HC HGB).
-  - (* SIf *) intros c b Hb elifs He els Ho HF st st' HC HG HGB. cbn [cfrag_stmt] in HF.
-    apply andb_true_iff in HF. destruct HF as [HF F4]. apply andb_true_iff in HF. destruct HF as [HF F3].
-    apply andb_true_iff in HF. destruct HF as [F1 F2].
-    apply (ctl_if c b elifs els st st' F1 (Hb F2) (He F3)); auto.
-    destruct els; [exact I|apply Ho; exact F4].
-  - (* SWhile *) intros c b Hb HF st st' HC HG HGB. cbn [cfrag_stmt] in HF. apply andb_true_iff in HF. destruct HF as [F1 F2].
-    apply (ctl_while c b st st' F1 (Hb F2) HC HG HGB).
-  - (* SForStep *) intros lv start stop step b Hb HF st st' HC HG HGB. cbn [cfrag_stmt] in HF. destruct lv; [discriminate|].
-    apply andb_true_iff in HF. destruct HF as [HF F4]. apply andb_true_iff in HF. destruct HF as [HF F3].
-    apply andb_true_iff in HF. destruct HF as [F1 F2].
-    apply (ctl_forstep start stop step b st st' F1 F2 F3 (Hb F4) HC HG HGB).
-  - (* SForIter *) intros lv t e b Hb HF st st' HC HG HGB. cbn [cfrag_stmt] in HF. destruct lv; [discriminate|].
-    assert (Ht : t = TStr \/ t = TArr \/ t = TMap) by (destruct t; try discriminate HF; auto).
-    assert (HF' : efrag e && cfrag_slist b = true) by (destruct t; try discriminate HF; exact HF).
-    apply andb_true_iff in HF'. destruct HF' as [F1 F2].
-    apply (ctl_foriter t e b st st' Ht F1 (Hb F2) HC HG HGB).
-  - (* SBreak *) intros _ st st' HC _ _. apply (ctl_break st st' HC).
-  - (* SEmpty *) intros _ st st' HC _ _. cbn [compile_stmt] in HC. inversion HC; subst. apply CTL_refl.
-  - (* SBlock *) intros b _ HF. discriminate.
-  - (* SUnsupported *) intros w HF. discriminate.
-  - (* SNil *) intros _ st st' HC _ _. cbn [body_of] in HC. inversion HC; subst. apply CTL_refl.
-  - (* SCons *) intros s Hs t Ht HF st st' HC HG HGB. cbn [cfrag_slist] in HF. apply andb_true_iff in HF. destruct HF as [F1 F2].
-    cbn [body_of] in HC. destruct (compile_stmt true s st) as [st1|] eqn:E1; [|discriminate]. cbn [bind] in HC.
-    pose proof (Hs F1 st st1 E1 HG HGB) as X1. rewrite compile_slist_body in HC.
-    assert (HG1 : gsym (csym st1)) by (rewrite (proj1 X1); exact HG).
-    assert (HGB1 : has_gb (csym st1)) by (rewrite (proj1 X1); exact HGB).
-    apply (CTL_trans st st1 st' X1 (Ht F2 st1 st' HC HG1 HGB1)).
-  - (* CNil *) intros _ jumps st st' jumps' HC _ _. cbn [compile_elifs] in HC. inversion HC; subst.
-    exists []. split; [cbn [map]; rewrite app_nil_r; reflexivity|apply ctlx_of_ctl; apply CTL_refl].
-  - (* CCons *) intros c b Hb t Ht HF jumps st st' jumps' HC HG HGB. cbn [cfrag_clist] in HF.
-    apply andb_true_iff in HF. destruct HF as [HF F3]. apply andb_true_iff in HF. destruct HF as [F1 F2].
-    cbn [compile_elifs] in HC. destruct (compile_cond true c b st) as [st1|] eqn:E1; [|inversion HC].
-    destruct (ctl_cond c b st st1 F1 (Hb F2) E1 HG HGB) as (ej & Eej & X1).
-    assert (HG1 : gsym (csym st1)) by (rewrite (proj1 X1); exact HG).
-    assert (HGB1 : has_gb (csym st1)) by (rewrite (proj1 X1); exact HGB).
-    destruct (Ht F3 _ _ _ _ HC HG1 HGB1) as (xs & EJ & X2).
-    exists (ej :: xs). split; [rewrite EJ, <- Eej, <- app_assoc; reflexivity|].
-    apply (ctlx_trans [ej] xs st st1 st' X1 X2).
-  - (* NoElse *) exact I.
-  - (* Else *) intros b Hb. exact Hb.
-Qed.
-
-(* ====================================================================== *)
-(* whole programs: top-level declarations and the control-flow fragment    *)
-(* ====================================================================== *)
-Definition TL (st st' : cstate) : Prop :=
-  top_ok st' /\ index (cur (csym st)) <= index (cur (csym st')) /\
-  exists new newc newb,
-    AOK new /\
-    ccode st' = ccode st ++ encode (strip new) /\
-    cconsts st' = cconsts st ++ newc /\
-    cbreaks st' = cbreaks st ++ map Z.of_N newb /\
-    (forall p, In p newb -> hole_at new (pcof st) p) /\
-    forall nc gc, N.of_nat (List.length (cconsts st')) <= nc -> index (cur (csym st')) <= gc ->
-      BOK nc gc new (pcof st) (AH 0) (AH 0) /\
-      forall p ra, In (p, ra) (holes nc gc new (pcof st) (AH 0)) -> In p newb.
-
-Lemma TL_refl st : top_ok st -> TL st st.
-Proof.
-  intro HT. split; [exact HT|]. split; [lia|]. exists [], [], []. split; [constructor|].
-  split; [simpl; rewrite app_nil_r; reflexivity|]. split; [rewrite app_nil_r; reflexivity|].
-  split; [simpl; rewrite app_nil_r; reflexivity|]. split; [intros p []|].
-  intros nc gc _ _. split; [split; simpl; auto|intros p ra []].
-Qed.
-
-Lemma TL_trans st st1 st2 : TL st st1 -> TL st1 st2 -> TL st st2.
-Proof.
-  intros (T1 & M1 & n1 & c1 & b1 & A1 & C1 & K1 & B1 & H1 & D1) (T2 & M2 & n2 & c2 & b2 & A2 & C2 & K2 & B2 & H2 & D2).
-  pose proof (pcof_app st st1 n1 C1 A1) as HP.
-  split; [exact T2|]. split; [lia|]. exists (n1 ++ n2), (c1 ++ c2), (b1 ++ b2).
-  split; [apply aok_app; assumption|].
-  split; [rewrite C2, C1, strip_app; unfold encode; rewrite flat_map_app, app_assoc; reflexivity|].
-  split; [rewrite K2, K1, app_assoc; reflexivity|].
-  split; [rewrite B2, B1, map_app, app_assoc; reflexivity|].
-  split.
-  { intros p Hp. apply in_app_or in Hp. destruct Hp as [Hp|Hp].
-    - apply hole_at_app_l. apply H1. exact Hp.
-    - apply hole_at_app_r. rewrite <- HP. apply H2. exact Hp. }
-  intros nc gc Hnc Hgc.
-  assert (Hnc1 : N.of_nat (List.length (cconsts st1)) <= nc) by (rewrite K2, app_length in Hnc; lia).
-  destruct (D1 nc gc Hnc1 ltac:(lia)) as [BK1 HL1].
-  destruct (D2 nc gc Hnc Hgc) as [BK2 HL2]. rewrite HP in BK2, HL2.
-  split; [eapply bok_app; eauto|].
-  intros p ra Hin. apply (holes_app_in nc gc n1 n2 (pcof st) _ _ _ (proj1 BK1)) in Hin.
-  destruct Hin as [Hin|Hin]; apply in_or_app; [left; apply (HL1 _ _ Hin)|right; apply (HL2 _ _ Hin)].
-Qed.
-
-Lemma TL_of_CTL st st' : top_ok st -> CTL st st' -> TL st st'.
-Proof.
-  intros HT (S & new & newc & newb & A & C & K & B & ND & H & D).
-  split; [unfold top_ok; rewrite S; exact HT|]. split; [rewrite S; lia|].
-  exists new, newc, newb. repeat (split; [assumption|]).
-  intros nc gc Hnc Hgc. rewrite S in Hgc.
-  assert (HG : globals_below (csym st) gc).
-  { intros n y HR. destruct (top_globals st HT n y HR) as [E1 E2]. split; [exact E1|lia]. }
-  destruct (D nc gc 0 Hnc HG) as [BK HL]. split; [exact BK|]. intros p ra Hin. apply (HL _ _ Hin).
-Qed.
-
-Lemma TL_of_decl n e st st' : efrag e = true -> top_ok st ->
-  compile_stmt true (SDecl n e) st = COk st' -> TL st st'.
-Proof.
-  intros HF HT HC.
-  assert (HB : cbreaks st' = cbreaks st).
-  { cbn [compile_stmt] in HC. destruct (compile_expr true e st) as [st1|] eqn:E1; [|discriminate]. cbn [bind] in HC.
-    rewrite <- (efrag_breaks e HF _ _ E1). destruct (st_define n (csym st1)) as [s' y].
-    unfold emit_set_var in HC. destruct (sscp y); apply emit_breaks in HC; exact HC. }
-  destruct (stmt_frag_sl (SDecl n e) st st' HF HC HT) as (T1 & M1 & ops & newc & C & K & R).
-  split; [exact T1|]. split; [exact M1|]. exists (solid ops), newc, [].
-  pose proof (R _ _ (N.le_refl _) (N.le_refl _)) as R0.
-  split; [apply (runs_aok _ _ _ _ _ R0)|]. split; [rewrite strip_solid; exact C|]. split; [exact K|].
-  split; [cbn [map]; rewrite app_nil_r; exact HB|]. split; [intros p []|].
-  intros nc gc Hnc Hgc. destruct (runs_bok nc gc ops (pcof st) 0 0 (R nc gc Hnc Hgc)) as [BK HH].
-  split; [exact BK|]. rewrite HH. intros p ra [].
-Qed.
-
-(* the program fragment: top-level declarations plus the control-flow fragment *)
-Definition pfrag_stmt (s : stmt) : bool :=
-  match s with SDecl _ e => efrag e | _ => cfrag_stmt s end.
-Fixpoint pfrag (p : slist) : bool :=
-  match p with SNil => true | SCons s t => pfrag_stmt s && pfrag t end.
-
-Lemma top_gsym st : top_ok st -> gsym (csym st) /\ has_gb (csym st).
-Proof.
-  intros HT. pose proof HT as (HO & HI & HN). split.
-  - split; [exact HN|]. rewrite HO. congruence.
-  - exists (index (cur (csym st))). apply top_globals. exact HT.
-Qed.
-
-Lemma pfrag_TL p : forall st st', pfrag p = true -> compile_slist true p st = COk st' -> top_ok st -> TL st st'.
-Proof.
-  induction p as [|s t IH]; intros st st' HF HC HT.
-  - simpl in HC. inversion HC; subst. apply TL_refl. exact HT.
-  - cbn [pfrag] in HF. apply andb_true_iff in HF. destruct HF as [F1 F2]. cbn [compile_slist] in HC.
-    destruct (compile_stmt true s st) as [st1|] eqn:E1; [|discriminate]. cbn [bind] in HC.
-    assert (X1 : TL st st1).
-    { destruct s; try (apply TL_of_CTL; [exact HT|]; destruct (top_gsym st HT) as [HG HGB];
-                       apply (proj1 ctl_all _ F1 st st1 E1 HG HGB)).
-      apply (TL_of_decl n e st st1 F1 HT E1). }
-    apply (TL_trans st st1 st' X1). apply (IH st1 st' F2 HC). apply X1.
-Qed.
-
-(* compile_wf: declarations, assignments, if / else-if / else, while, break,
-   for over step ranges and iterables (without loop variable), nested — if the
-   compiler succeeds (and no break is left outside a loop, which the parser
-   guarantees), its output satisfies WF.  No size guard: out-of-range
-   operands and jump targets are compile errors at HEAD. *)
-Theorem compile_wf_ctl : forall (p : slist) (st : cstate),
-  pfrag p = true -> compile p = COk st -> cbreaks st = [] ->
-  WF {| bcode := out_code (bytecode_of st); nconsts := N.of_nat (List.length (out_consts (bytecode_of st)));
-        gcount := out_gcount (bytecode_of st); lcount := out_lcount (bytecode_of st) |}.
-Proof.
-  intros p st HF HC HB. unfold compile, compile_program in HC.
-  assert (HT : top_ok cinit) by (split; [reflexivity|split; [apply inv_new|reflexivity]]).
-  destruct (pfrag_TL p cinit st HF HC HT) as ((T1 & T2 & T3) & _ & new & newc & newb & A & C & K & B & H & D).
-  simpl in C, K, B. rewrite HB in B. assert (newb = []) by (destruct newb; [reflexivity|discriminate]). subst newb.
-  unfold bytecode_of. cbn [out_code out_consts out_gcount out_lcount]. unfold st_local_count, st_global_count.
-  rewrite T3, C.
-  destruct (D (N.of_nat (List.length (cconsts st))) (index (cur (csym st))) (N.le_refl _) (N.le_refl _)) as [BK HL].
-  change (pcof cinit) with 0 in BK, HL.
-  apply bok_WF; [exact BK|].
-  destruct (holes _ _ new 0 (AH 0)) as [|[q ra] r] eqn:EH; [reflexivity|].
-  exfalso. apply (HL q ra). left. reflexivity.
-Qed.
-
-(* ====================================================================== *)
-(* top-level for loops WITH a loop variable (a global, see vm-loopvar-global) *)
-(* ====================================================================== *)
+(* ---------- for loops WITH a loop variable ---------- *)
 Lemma step_range_op_lv nc gc rop S k : range_op rop S ->
   jop_step nc gc (rop, 1) (AH (k + S)) = Some (ACond (k + S)) /\ jop_req (rop, 1) (AH (k + S)) = None.
 Proof.
@@ -1278,17 +1056,26 @@ Proof.
   cbn [negb andb]. destruct (k <? 0) eqn:E; [apply N.ltb_lt in E; lia|]. f_equal. lia.
 Qed.
 
-Definition TLOOP (S : N) (st st' : cstate) : Prop :=
-  top_ok st' /\ index (cur (csym st)) <= index (cur (csym st')) /\ cbreaks st' = cbreaks st /\
-  exists new newc,
-    AOK new /\ ccode st' = ccode st ++ encode (strip new) /\ cconsts st' = cconsts st ++ newc /\
-    forall nc gc, N.of_nat (List.length (cconsts st')) <= nc -> index (cur (csym st')) <= gc ->
-      BOK nc gc new (pcof st) (AH (0 + S)) (AH 0) /\ holes nc gc new (pcof st) (AH (0 + S)) = [].
-
-Lemma for_loop_lv_ok rop S n b st st' : range_op rop S -> slist_ctl b ->
-  for_loop true (Some n) rop (Z.of_N S) b st = COk st' -> top_ok st -> TLOOP S st st'.
+Lemma set_var_rec y st1 st' : emit_set_var true y st1 = COk st' ->
+  sidx y < 65536 /\
+  st' = {| ccode := ccode st1 ++ enc1 (setop y, sidx y); cconsts := cconsts st1; csym := csym st1; cbreaks := cbreaks st1 |}.
 Proof.
-  intros HRO HB HC HT. pose proof HT as (HO & HI & HN).
+  unfold emit_set_var, setop. intro H. destruct (sscp y); apply emit_enc1 in H; try reflexivity; destruct H as [HR ->];
+    rewrite N2Z.id; split; [lia|reflexivity|lia|reflexivity].
+Qed.
+
+Lemma setop_facts y : has_operand (setop y) = true /\ is_local (setop y) = match sscp y with GlobalScope => false | LocalScope => true end.
+Proof. unfold setop. destruct (sscp y); split; reflexivity. Qed.
+
+(* a for loop WITH a loop variable: the variable is defined in the scope the
+   statement is in (a global at top level, a local inside a block); from there
+   on the loop is a LOOPOK *)
+Lemma for_loop_lv_ok rop S n b st st' : range_op rop S -> slist_ctl b ->
+  for_loop true (Some n) rop (Z.of_N S) b st = COk st' -> Inv (csym st) ->
+  has_gbw (fst (st_define n (csym st))) ->
+  LOOPOK S (with_sym (fst (st_define n (csym st))) st) st'.
+Proof.
+  intros HRO HB HC HI HGBW.
   assert (HS : S < 65536) by (destruct HRO as [[_ ->]|[_ ->]]; lia).
   destruct (st_define n (csym st)) as [sym' y] eqn:ED.
   assert (HD1 : fst (st_define n (csym st)) = sym') by (rewrite ED; reflexivity).
@@ -1296,10 +1083,8 @@ Proof.
   destruct (define_frame n (csym st)) as (F1 & F2 & F3). rewrite HD1 in F1, F2, F3.
   pose proof (inv_define n (csym st) HI) as HI'. rewrite HD1 in HI'.
   pose proof (define_then_resolve (csym st) n) as DR. rewrite HD1, HD2 in DR.
-  assert (HO' : outers sym' = []) by congruence.
-  destruct (sym_top_globals _ HO' HI' _ _ DR) as [SG SI].
-  assert (HT' : top_ok (with_sym sym' st)) by (repeat split; cbn [with_sym csym]; auto; congruence).
-  destruct (top_gsym _ HT') as [HG' HGB']. cbn [with_sym csym] in HG', HGB'.
+  cbn [fst] in HGBW |- *.
+  destruct (setop_facts y) as [HSO HSLoc].
   assert (HCb : for_loop true (Some n) rop (Z.of_N S) b st =
     (emit true ONone [] (with_sym sym' st) >>= emit_set_var true y >>= fun st1 =>
      emit true rop [1%Z] st1 >>= fun st2 =>
@@ -1324,137 +1109,138 @@ Proof.
   inversion HC; subst st'; clear HC.
   destruct (step_range_op 0 0 rop S 0 HRO) as (_ & _ & HOr & HJr).
   apply emit_enc0 in Ea; [|reflexivity]. subst sa.
-  pose proof Eb as Eb'. unfold emit_set_var in Eb'. rewrite SG in Eb'. apply emit_enc1 in Eb'; [|reflexivity].
-  destruct Eb' as [HRy ->]. rewrite N2Z.id in *. cbn [with_sym ccode cconsts csym cbreaks] in *.
+  pose proof Eb as Eb'. apply set_var_rec in Eb'.
+  destruct Eb' as [HRy ->]. cbn [with_sym ccode cconsts csym cbreaks] in *.
   apply emit_enc1 in E1; [|exact HOr]. destruct E1 as [_ ->]. change (Z.to_N 1) with 1 in *.
   apply emit_hole in E2; [|reflexivity]. subst st2'.
-  unfold for_assign in E2a. cbn [csym] in E2a. rewrite DR in E2a. unfold emit_set_var in E2a. rewrite SG in E2a.
-  apply emit_enc1 in E2a; [|reflexivity]. destruct E2a as [_ ->]. rewrite N2Z.id in *. cbn [ccode cconsts csym cbreaks] in *.
-  assert (HG3 : gsym (st_push sym')) by (apply gsym_push; exact HG').
-  assert (HGB3 : has_gb (st_push sym')) by (apply has_gb_push; exact HGB').
-  pose proof (HB _ _ E3 HG3 HGB3) as (Sb & nb & cb & bb & Ab & Cb & Kb & Bb & NDb & Hb & Db).
-  unfold with_sym, with_breaks in Sb, Cb, Kb, Bb, Hb, Db. cbn [ccode cconsts csym cbreaks app] in Sb, Cb, Kb, Bb, Hb, Db.
+  unfold for_assign in E2a. cbn [csym] in E2a. rewrite DR in E2a.
+  apply set_var_rec in E2a. destruct E2a as [_ ->]. cbn [ccode cconsts csym cbreaks] in *.
+  assert (HG3 : Inv (st_push sym')) by (apply inv_push; exact HI').
+  assert (HGB3 : has_gbw (st_push sym')) by (apply has_gbw_push; exact HGBW).
+  assert (HO3 : outers (st_push sym') <> []) by discriminate.
+  pose proof (HB _ _ E3 HO3 HG3 HGB3) as (Sb & nb & cb & bb & Ab & Cb & Kb & Bb & NDb & Hb & Lb & Db).
+  unfold with_sym, with_breaks in Sb, Cb, Kb, Bb, Hb, Lb, Db. cbn [ccode cconsts csym cbreaks app] in Sb, Cb, Kb, Bb, Hb, Lb, Db.
   apply emit_jump_to in E4. destruct E4 as [HRs ->]. unfold with_sym in E5, E6, E7. cbn [ccode cconsts csym cbreaks] in E5, E6, E7.
   apply emit_enc1 in E5; [|reflexivity]. destruct E5 as [_ ->]. rewrite N2Z.id in *. cbn [ccode cconsts csym cbreaks] in E6, E7.
   set (pc0 := pcof st) in *. set (idx := sidx y) in *.
   set (top := pc0 + 4). set (jof := pc0 + 7). set (bstart := pc0 + 13).
-  set (PRE := [(false, (ONone, 0)); (false, (SetGlobal, idx))] : list hop).
-  set (W0 := PRE ++ (false, (rop, 1)) :: (true, (JumpOnFalse, 9999)) :: (false, (SetGlobal, idx)) :: (nb ++ [(false, (Jump, top))])).
+  set (PRE := [(false, (ONone, 0)); (false, (setop y, idx))] : list hop).
+  set (W0 := PRE ++ (false, (rop, 1)) :: (true, (JumpOnFalse, 9999)) :: (false, (setop y, idx)) :: (nb ++ [(false, (Jump, top))])).
   set (W := W0 ++ [(false, (Drop, S))]).
   assert (HIL : ilen_of (rop, 1) = 3) by (unfold ilen_of; cbn [fst]; rewrite HOr; reflexivity).
+  assert (HIS : ilen_of (setop y, idx) = 3) by (unfold ilen_of; cbn [fst]; rewrite HSO; reflexivity).
   assert (Hidx : idx < 65536) by (unfold idx; lia).
-  assert (ETop : Z.to_N (pos_of {| ccode := (ccode st ++ enc1 (ONone, 0)) ++ enc1 (SetGlobal, idx); cconsts := cconsts st; csym := sym'; cbreaks := cbreaks st |}) = top).
+  assert (ETop : Z.to_N (pos_of {| ccode := (ccode st ++ enc1 (ONone, 0)) ++ enc1 (setop y, idx); cconsts := cconsts st; csym := sym'; cbreaks := cbreaks st |}) = top).
   { rewrite pos_pcof, N2Z.id. unfold pcof, top, pc0, pcof. cbn [ccode]. rewrite !app_length, !Nat2N.inj_add.
-    pose proof (decode1_enc1' (ONone, 0) [] ltac:(cbn; lia)) as [_ L1]. pose proof (decode1_enc1' (SetGlobal, idx) [] Hidx) as [_ L2].
-    rewrite L1, L2. unfold ilen_of. simpl. lia. }
+    pose proof (decode1_enc1' (ONone, 0) [] ltac:(cbn; lia)) as [_ L1]. pose proof (decode1_enc1' (setop y, idx) [] Hidx) as [_ L2].
+    rewrite L1, L2, HIS. unfold ilen_of. simpl. lia. }
   assert (AW0 : AOK W0).
   { unfold W0, PRE. repeat (constructor; [cbn; lia|]). apply aok_app; [exact Ab|].
     constructor; [cbn; rewrite <- ETop; lia|constructor]. }
   assert (AW : AOK W) by (unfold W; apply aok_app; [exact AW0|constructor; [cbn; exact HS|constructor]]).
-  assert (Pb : pcof {| ccode := (((((ccode st ++ enc1 (ONone, 0)) ++ enc1 (SetGlobal, idx)) ++ enc1 (rop, 1)) ++
-                                  encode (strip [(true, (JumpOnFalse, 9999))])) ++ enc1 (SetGlobal, idx));
+  assert (Pb : pcof {| ccode := (((((ccode st ++ enc1 (ONone, 0)) ++ enc1 (setop y, idx)) ++ enc1 (rop, 1)) ++
+                                  encode (strip [(true, (JumpOnFalse, 9999))])) ++ enc1 (setop y, idx));
                        cconsts := cconsts st; csym := st_push sym'; cbreaks := [] |} = bstart).
   { unfold pcof, bstart, pc0, pcof. cbn [ccode]. rewrite !app_length, !Nat2N.inj_add.
-    pose proof (decode1_enc1' (ONone, 0) [] ltac:(cbn; lia)) as [_ L1]. pose proof (decode1_enc1' (SetGlobal, idx) [] Hidx) as [_ L2].
+    pose proof (decode1_enc1' (ONone, 0) [] ltac:(cbn; lia)) as [_ L1]. pose proof (decode1_enc1' (setop y, idx) [] Hidx) as [_ L2].
     pose proof (decode1_enc1' (rop, 1) [] ltac:(cbn; lia)) as [_ L3].
     rewrite (aok_len [(true, (JumpOnFalse, 9999))]) by (constructor; [cbn; lia|constructor]).
-    rewrite L1, L2, L3, HIL. cbn [strip map snd]. rewrite total_len_cons. unfold total_len, ilen_of. simpl. lia. }
+    rewrite L1, L2, L3, HIL, ?HIS. cbn [strip map snd]. rewrite total_len_cons. unfold total_len, ilen_of. simpl. lia. }
   rewrite Pb in Hb, Db.
-  assert (EW0 : encode (strip W0) = enc1 (ONone, 0) ++ enc1 (SetGlobal, idx) ++ enc1 (rop, 1) ++
-                                    encode (strip [(true, (JumpOnFalse, 9999))]) ++ enc1 (SetGlobal, idx) ++ encode (strip nb) ++ enc1 (Jump, top)).
+  assert (EW0 : encode (strip W0) = enc1 (ONone, 0) ++ enc1 (setop y, idx) ++ enc1 (rop, 1) ++
+                                    encode (strip [(true, (JumpOnFalse, 9999))]) ++ enc1 (setop y, idx) ++ encode (strip nb) ++ enc1 (Jump, top)).
   { unfold W0, PRE.
-    change ([(false, (ONone, 0)); (false, (SetGlobal, idx))] ++ (false, (rop, 1)) :: (true, (JumpOnFalse, 9999)) :: (false, (SetGlobal, idx)) :: nb ++ [(false, (Jump, top))])
-      with ([(false, (ONone, 0))] ++ [(false, (SetGlobal, idx))] ++ [(false, (rop, 1))] ++ [(true, (JumpOnFalse, 9999))] ++ [(false, (SetGlobal, idx))] ++ nb ++ [(false, (Jump, top))]).
+    change ([(false, (ONone, 0)); (false, (setop y, idx))] ++ (false, (rop, 1)) :: (true, (JumpOnFalse, 9999)) :: (false, (setop y, idx)) :: nb ++ [(false, (Jump, top))])
+      with ([(false, (ONone, 0))] ++ [(false, (setop y, idx))] ++ [(false, (rop, 1))] ++ [(true, (JumpOnFalse, 9999))] ++ [(false, (setop y, idx))] ++ nb ++ [(false, (Jump, top))]).
     rewrite !encode_strip_app. cbn [strip map snd]. rewrite !encode_one. reflexivity. }
-  assert (C5 : ccode st4 ++ encode (strip [(false, (Jump, Z.to_N (pos_of {| ccode := (ccode st ++ enc1 (ONone, 0)) ++ enc1 (SetGlobal, idx); cconsts := cconsts st; csym := sym'; cbreaks := cbreaks st |})))])
+  assert (C5 : ccode st4 ++ encode (strip [(false, (Jump, Z.to_N (pos_of {| ccode := (ccode st ++ enc1 (ONone, 0)) ++ enc1 (setop y, idx); cconsts := cconsts st; csym := sym'; cbreaks := cbreaks st |})))])
                = ccode st ++ encode (strip W0)).
   { rewrite Cb, ETop, EW0. cbn [strip map snd]. rewrite !encode_one, <- !app_assoc. reflexivity. }
-  assert (CW : (ccode st4 ++ encode (strip [(false, (Jump, Z.to_N (pos_of {| ccode := (ccode st ++ enc1 (ONone, 0)) ++ enc1 (SetGlobal, idx); cconsts := cconsts st; csym := sym'; cbreaks := cbreaks st |})))])) ++ enc1 (Drop, S)
+  assert (CW : (ccode st4 ++ encode (strip [(false, (Jump, Z.to_N (pos_of {| ccode := (ccode st ++ enc1 (ONone, 0)) ++ enc1 (setop y, idx); cconsts := cconsts st; csym := sym'; cbreaks := cbreaks st |})))])) ++ enc1 (Drop, S)
                = ccode st ++ encode (strip W)).
   { rewrite C5. unfold W. rewrite encode_strip_app. cbn [strip map snd]. rewrite encode_one, <- app_assoc. reflexivity. }
   set (endp := pc0 + total_len (strip W0)).
-  assert (BW : forall nc gc, N.of_nat (List.length (cconsts st4)) <= nc -> index (cur sym') <= gc ->
-            BOK nc gc W pc0 (AH (0 + S)) (AH 0) /\
-            In (endp, AH (0 + S)) (jannot nc gc (strip W) pc0 (AH (0 + S))) /\
-            forall p ra, In (p, ra) (holes nc gc W pc0 (AH (0 + S))) -> ra = AH (0 + S) /\ (p = jof \/ In p bb)).
-  { intros nc gc Hnc Hgc.
-    assert (HGl : globals_below sym' gc).
-    { intros m ym HR. destruct (sym_top_globals _ HO' HI' m ym HR) as [A1 A2]. split; [exact A1|lia]. }
-    assert (Hidg : idx < gc) by (unfold idx; lia).
-    (* the prologue: None; SetGlobal idx *)
-    destruct (runs_bok nc gc [(ONone, 0); (SetGlobal, idx)] pc0 (0 + S) (0 + S)) as [BKp HHp].
-    { cbn [runs]. rewrite sop_ok_onone, sop_ok_setglobal by lia. reflexivity. }
-    destruct (step_range_op_lv nc gc rop S 0 HRO) as (ST1 & RQ1).
-    assert (BK1 : BOK nc gc [(false, (rop, 1))] top (AH (0 + S)) (ACond (0 + S))).
+  assert (BW : forall nc gc k, N.of_nat (List.length (cconsts st4)) <= nc -> gbw sym' gc ->
+            BOK nc gc W pc0 (AH (k + S)) (AH k) /\
+            In (endp, AH (k + S)) (jannot nc gc (strip W) pc0 (AH (k + S))) /\
+            forall p ra, In (p, ra) (holes nc gc W pc0 (AH (k + S))) -> ra = AH (k + S) /\ (p = jof \/ In p bb)).
+  { intros nc gc k Hnc HGl.
+    assert (Hidg : sscp y = GlobalScope -> idx < gc) by (intro X; apply (HGl n y DR X)).
+    (* the prologue: None; setop y idx *)
+    destruct (runs_bok nc gc [(ONone, 0); (setop y, idx)] pc0 (k + S) (k + S)) as [BKp HHp].
+    { cbn [runs]. rewrite sop_ok_onone, sop_ok_setvar by assumption. reflexivity. }
+    destruct (step_range_op_lv nc gc rop S k HRO) as (ST1 & RQ1).
+    assert (BK1 : BOK nc gc [(false, (rop, 1))] top (AH (k + S)) (ACond (k + S))).
     { unfold BOK. cbn [strip map snd jruns jannot htgt]. rewrite ST1, RQ1. repeat split. }
-    assert (HH1 : holes nc gc [(false, (rop, 1))] top (AH (0 + S)) = []) by (cbn [holes]; rewrite ST1; reflexivity).
-    destruct (bok_hole_jof_cond nc gc jof (0 + S)) as [BKj HHj].
-    destruct (runs_bok nc gc [(SetGlobal, idx)] (pc0 + 10) (0 + S + 1) (0 + S)) as [BKs HHs].
-    { cbn [runs]. rewrite sop_ok_setglobal by lia. reflexivity. }
-    destruct (Db nc gc (0 + S) Hnc (globals_below_push _ _ HGl)) as [BKb HLb].
-    assert (Lp : pc0 + total_len (strip (solid [(ONone, 0); (SetGlobal, idx)])) = top).
-    { rewrite strip_solid. unfold total_len, top, ilen_of. simpl. lia. }
+    assert (HH1 : holes nc gc [(false, (rop, 1))] top (AH (k + S)) = []) by (cbn [holes]; rewrite ST1; reflexivity).
+    destruct (bok_hole_jof_cond nc gc jof (k + S)) as [BKj HHj].
+    destruct (runs_bok nc gc [(setop y, idx)] (pc0 + 10) (k + S + 1) (k + S)) as [BKs HHs].
+    { cbn [runs]. rewrite sop_ok_setvar by assumption. reflexivity. }
+    destruct (Db nc gc (k + S) Hnc (gbw_push _ _ HGl)) as [BKb HLb].
+    assert (Lp : pc0 + total_len (strip (solid [(ONone, 0); (setop y, idx)])) = top).
+    { rewrite strip_solid. unfold total_len, top. cbn [fold_right]. rewrite HIS. unfold ilen_of. simpl. lia. }
     assert (L1 : top + total_len (strip [(false, (rop, 1))]) = jof).
     { cbn [strip map snd]. rewrite total_len_cons, HIL. unfold total_len, top, jof. simpl. lia. }
     assert (L2 : jof + total_len (strip [(true, (JumpOnFalse, 9999))]) = pc0 + 10).
     { cbn [strip map snd]. rewrite total_len_cons. unfold total_len, jof, ilen_of. simpl. lia. }
-    assert (L3 : pc0 + 10 + total_len (strip (solid [(SetGlobal, idx)])) = bstart).
-    { rewrite strip_solid. unfold total_len, bstart, ilen_of. simpl. lia. }
-    assert (BK3 : BOK nc gc ([(false, (rop, 1))] ++ [(true, (JumpOnFalse, 9999))] ++ solid [(SetGlobal, idx)] ++ nb) top (AH (0 + S)) (AH (0 + S))).
+    assert (L3 : pc0 + 10 + total_len (strip (solid [(setop y, idx)])) = bstart).
+    { rewrite strip_solid. unfold total_len, bstart. cbn [fold_right]. rewrite HIS. lia. }
+    assert (BK3 : BOK nc gc ([(false, (rop, 1))] ++ [(true, (JumpOnFalse, 9999))] ++ solid [(setop y, idx)] ++ nb) top (AH (k + S)) (AH (k + S))).
     { eapply bok_app; [exact BK1|]. rewrite L1. eapply bok_app; [exact BKj|]. rewrite L2.
       eapply bok_app; [exact BKs|]. rewrite L3. exact BKb. }
-    assert (HIN : In (top, AH (0 + S)) (jannot nc gc (strip ([(false, (rop, 1))] ++ [(true, (JumpOnFalse, 9999))] ++ solid [(SetGlobal, idx)] ++ nb)) top (AH (0 + S)))).
+    assert (HIN : In (top, AH (k + S)) (jannot nc gc (strip ([(false, (rop, 1))] ++ [(true, (JumpOnFalse, 9999))] ++ solid [(setop y, idx)] ++ nb)) top (AH (k + S)))).
     { apply jannot_head. discriminate. }
-    destruct (bok_snoc_back nc gc _ top (AH (0 + S)) (0 + S) top BK3 HIN) as [BK4 HH4]; [rewrite <- ETop; lia|].
-    assert (BK5 : BOK nc gc W0 pc0 (AH (0 + S)) (AH (0 + S))).
-    { assert (X : BOK nc gc (solid [(ONone, 0); (SetGlobal, idx)] ++
-                              (([(false, (rop, 1))] ++ [(true, (JumpOnFalse, 9999))] ++ solid [(SetGlobal, idx)] ++ nb) ++ [(false, (Jump, top))]))
-                         pc0 (AH (0 + S)) (AH (0 + S))).
+    destruct (bok_snoc_back nc gc _ top (AH (k + S)) (k + S) top BK3 HIN) as [BK4 HH4]; [rewrite <- ETop; lia|].
+    assert (BK5 : BOK nc gc W0 pc0 (AH (k + S)) (AH (k + S))).
+    { assert (X : BOK nc gc (solid [(ONone, 0); (setop y, idx)] ++
+                              (([(false, (rop, 1))] ++ [(true, (JumpOnFalse, 9999))] ++ solid [(setop y, idx)] ++ nb) ++ [(false, (Jump, top))]))
+                         pc0 (AH (k + S)) (AH (k + S))).
       { eapply bok_app; [exact BKp|]. rewrite Lp. exact BK4. }
       exact X. }
-    destruct (runs_bok nc gc [(Drop, S)] endp (0 + S) 0) as [BKd HHd].
-    { cbn [runs]. rewrite (sop_ok_drop nc gc S 0 HS). reflexivity. }
+    destruct (runs_bok nc gc [(Drop, S)] endp (k + S) k) as [BKd HHd].
+    { cbn [runs]. rewrite (sop_ok_drop nc gc S k HS). reflexivity. }
     split; [|split].
     - unfold W. eapply bok_app; [exact BK5|exact BKd].
     - unfold W. rewrite strip_app, (jannot_app nc gc (strip W0) _ pc0 _ _ (proj1 BK5)).
       apply in_or_app. right. fold endp. cbn [strip map snd jannot]. left. reflexivity.
     - intros p ra Hin. unfold W in Hin.
       apply (holes_app_in nc gc W0 _ pc0 _ _ _ (proj1 BK5)) in Hin. destruct Hin as [Hin|Hin];
-        [|exfalso; revert Hin; change (In (p, ra) (holes nc gc (solid [(Drop, S)]) endp (AH (0 + S))) -> False); rewrite HHd; intros []].
-      change W0 with (solid [(ONone, 0); (SetGlobal, idx)] ++
-                      (([(false, (rop, 1))] ++ [(true, (JumpOnFalse, 9999))] ++ solid [(SetGlobal, idx)] ++ nb) ++ [(false, (Jump, top))])) in Hin.
+        [|exfalso; revert Hin; change (In (p, ra) (holes nc gc (solid [(Drop, S)]) endp (AH (k + S))) -> False); rewrite HHd; intros []].
+      change W0 with (solid [(ONone, 0); (setop y, idx)] ++
+                      (([(false, (rop, 1))] ++ [(true, (JumpOnFalse, 9999))] ++ solid [(setop y, idx)] ++ nb) ++ [(false, (Jump, top))])) in Hin.
       apply (holes_app_in nc gc _ _ pc0 _ _ _ (proj1 BKp)) in Hin. destruct Hin as [Hin|Hin]; [rewrite HHp in Hin; destruct Hin|].
       rewrite Lp in Hin.
-      assert (Hin' : In (p, ra) (holes nc gc ([(false, (rop, 1))] ++ [(true, (JumpOnFalse, 9999))] ++ solid [(SetGlobal, idx)] ++ nb) top (AH (0 + S))))
+      assert (Hin' : In (p, ra) (holes nc gc ([(false, (rop, 1))] ++ [(true, (JumpOnFalse, 9999))] ++ solid [(setop y, idx)] ++ nb) top (AH (k + S))))
         by (rewrite <- HH4; exact Hin).
       clear Hin. rename Hin' into Hin.
       apply (holes_app_in nc gc [(false, (rop, 1))] _ top _ _ _ (proj1 BK1)) in Hin. destruct Hin as [Hin|Hin]; [rewrite HH1 in Hin; destruct Hin|].
       rewrite L1 in Hin.
       apply (holes_app_in nc gc [(true, (JumpOnFalse, 9999))] _ jof _ _ _ (proj1 BKj)) in Hin. destruct Hin as [Hin|Hin].
-      { assert (X : In (p, ra) [(jof, AH (0 + S))]) by (rewrite <- HHj; exact Hin).
+      { assert (X : In (p, ra) [(jof, AH (k + S))]) by (rewrite <- HHj; exact Hin).
         destruct X as [Eq|[]]. inversion Eq; subst. split; [reflexivity|left; reflexivity]. }
       rewrite L2 in Hin.
-      apply (holes_app_in nc gc (solid [(SetGlobal, idx)]) nb (pc0 + 10) _ _ _ (proj1 BKs)) in Hin.
+      apply (holes_app_in nc gc (solid [(setop y, idx)]) nb (pc0 + 10) _ _ _ (proj1 BKs)) in Hin.
       destruct Hin as [Hin|Hin]; [rewrite HHs in Hin; destruct Hin|].
       rewrite L3 in Hin. destruct (HLb _ _ Hin). split; [assumption|right; assumption]. }
   assert (HJ : hole_at W pc0 jof).
-  { unfold W, W0, PRE. apply hole_at_app_l. cbn [app hole_at]. right. split; [unfold jof, ilen_of; simpl; lia|].
-    right. split; [unfold jof, ilen_of; simpl; lia|]. right. rewrite HIL. split; [unfold jof, ilen_of; simpl; lia|].
-    left. unfold jof, ilen_of. simpl. split; [lia|auto]. }
+  { unfold W, W0, PRE. apply hole_at_app_l. cbn [app hole_at]. right. split; [rewrite ?HIS; unfold jof, ilen_of; simpl; lia|].
+    right. split; [rewrite ?HIS; unfold jof, ilen_of; simpl; lia|]. right. rewrite HIL. split; [rewrite ?HIS; unfold jof, ilen_of; simpl; lia|].
+    left. rewrite ?HIS. unfold jof, ilen_of. simpl. split; [lia|auto]. }
   assert (HBs : forall p, In p bb -> hole_at W pc0 p).
   { intros p Hp. unfold W, W0, PRE. apply hole_at_app_l. pose proof (hole_at_range _ _ _ (Hb p Hp)) as HR. unfold bstart in HR.
-    cbn [app hole_at]. right. split; [unfold ilen_of; simpl; lia|].
-    right. split; [unfold ilen_of; simpl; lia|]. right. rewrite HIL. split; [unfold ilen_of; simpl; lia|].
-    right. split; [unfold ilen_of; simpl; lia|]. right. split; [unfold ilen_of; simpl; lia|].
+    cbn [app hole_at]. right. split; [rewrite ?HIS; unfold ilen_of; simpl; lia|].
+    right. split; [rewrite ?HIS; unfold ilen_of; simpl; lia|]. right. rewrite HIL. split; [rewrite ?HIS; unfold ilen_of; simpl; lia|].
+    right. split; [rewrite ?HIS; unfold ilen_of; simpl; lia|]. right. split; [rewrite ?HIS; unfold ilen_of; simpl; lia|].
     apply hole_at_app_l.
-    replace (pc0 + ilen_of (ONone, 0) + ilen_of (SetGlobal, idx) + 3 + ilen_of (JumpOnFalse, 9999) + ilen_of (SetGlobal, idx)) with bstart
-      by (unfold bstart, ilen_of; simpl; lia).
+    replace (pc0 + ilen_of (ONone, 0) + ilen_of (setop y, idx) + 3 + ilen_of (JumpOnFalse, 9999) + ilen_of (setop y, idx)) with bstart
+      by (rewrite ?HIS; unfold bstart, ilen_of; simpl; lia).
     apply Hb. exact Hp. }
-  destruct (BW (N.of_nat (List.length (cconsts st4))) (index (cur sym')) (N.le_refl _) (N.le_refl _)) as [[RW _] _].
-  assert (EJ : pos_of {| ccode := ((ccode st ++ enc1 (ONone, 0)) ++ enc1 (SetGlobal, idx)) ++ enc1 (rop, 1); cconsts := cconsts st; csym := sym'; cbreaks := cbreaks st |} = Z.of_N jof).
+  destruct HGBW as (gc0 & HG0).
+  destruct (BW (N.of_nat (List.length (cconsts st4))) gc0 0 (N.le_refl _) HG0) as [[RW _] _].
+  assert (EJ : pos_of {| ccode := ((ccode st ++ enc1 (ONone, 0)) ++ enc1 (setop y, idx)) ++ enc1 (rop, 1); cconsts := cconsts st; csym := sym'; cbreaks := cbreaks st |} = Z.of_N jof).
   { rewrite pos_pcof. f_equal. unfold pcof, jof, pc0, pcof. cbn [ccode]. rewrite !app_length, !Nat2N.inj_add.
-    pose proof (decode1_enc1' (ONone, 0) [] ltac:(cbn; lia)) as [_ L1]. pose proof (decode1_enc1' (SetGlobal, idx) [] Hidx) as [_ L2].
-    pose proof (decode1_enc1' (rop, 1) [] ltac:(cbn; lia)) as [_ L3]. rewrite L1, L2, L3, HIL. unfold ilen_of. simpl. lia. }
+    pose proof (decode1_enc1' (ONone, 0) [] ltac:(cbn; lia)) as [_ L1]. pose proof (decode1_enc1' (setop y, idx) [] Hidx) as [_ L2].
+    pose proof (decode1_enc1' (rop, 1) [] ltac:(cbn; lia)) as [_ L3]. rewrite L1, L2, L3, HIL, ?HIS. unfold ilen_of. simpl. lia. }
   rewrite EJ in E6.
   match type of E6 with patch _ _ ?T0 ?s0 = _ => set (TZ := T0) in *;
     destruct (patch_fill _ _ jof TZ s0 st7 W (ccode st) (AH (0 + S)) (AH 0) CW RW HJ E6) as [HTz ->] end.
@@ -1470,39 +1256,427 @@ Proof.
   assert (ET : T = endp).
   { unfold T, TZ. rewrite pos_pcof, N2Z.id. unfold pcof. cbn [ccode]. unfold endp.
     rewrite C5, app_length, Nat2N.inj_add, (aok_len W0 AW0). reflexivity. }
-  unfold TLOOP, with_breaks, top_ok. cbn [ccode cconsts csym cbreaks]. fold pc0.
-  assert (SF : st_pop (csym st4) = sym') by (rewrite Sb; apply pop_push_id; exact HG').
-  split; [rewrite SF; split; [exact HO'|split; [exact HI'|congruence]]|]. split; [rewrite SF; exact F3|]. split; [reflexivity|].
+  unfold LOOPOK, with_breaks, with_sym. cbn [ccode cconsts csym cbreaks].
+  change (pcof {| ccode := ccode st; cconsts := cconsts st; csym := sym'; cbreaks := cbreaks st |}) with pc0.
+  split; [apply SX_block; exact Sb|]. split; [reflexivity|].
   exists (fill (bb ++ [jof]) T W pc0), cb.
   split; [apply aok_fill; assumption|]. split; [reflexivity|]. split; [exact Kb|].
-  intros nc gc Hnc Hgc. rewrite SF in Hgc. destruct (BW nc gc Hnc Hgc) as (BKW & HEND & HLW).
+  split.
+  { intros lc HLc. pose proof (bound_step SPop (csym st4)) as X. cbn [st_step fst] in X.
+    pose proof (sx_bound _ _ Sb) as X2. pose proof (bound_step SPush sym') as X3. cbn [st_step fst] in X3.
+    assert (HLy : lopk lc (setop y, idx)).
+    { apply lopk_setvar. intro HS'. pose proof (define_below n (csym st) HI) as X4. rewrite HD1, HD2 in X4. specialize (X4 HS'). unfold idx. lia. }
+    assert (HLr : is_local rop = false) by (destruct HRO as [[-> _]|[-> _]]; reflexivity).
+    apply lok_fill. unfold W, W0, PRE. apply lok_app; [|apply lok_one; reflexivity].
+    unfold LOK. cbn [strip map snd app]. constructor; [apply lopk_nonlocal; reflexivity|]. constructor; [exact HLy|].
+    constructor; [apply lopk_nonlocal; exact HLr|]. constructor; [apply lopk_nonlocal; reflexivity|]. constructor; [exact HLy|].
+    rewrite map_app. apply Forall_app. split; [apply Lb; lia|]. constructor; [apply lopk_nonlocal; reflexivity|constructor]. }
+  intros nc gc k Hnc Hgc. destruct (BW nc gc k Hnc Hgc) as (BKW & HEND & HLW).
   split.
   - apply bok_fill; [exact HTN|exact BKW|]. intros p ra Hin _. right. destruct (HLW _ _ Hin) as [-> _]. rewrite ET. exact HEND.
-  - destruct (holes nc gc (fill (bb ++ [jof]) T W pc0) pc0 (AH (0 + S))) as [|[p ra] r] eqn:EH; [reflexivity|exfalso].
-    assert (Hin : In (p, ra) (holes nc gc (fill (bb ++ [jof]) T W pc0) pc0 (AH (0 + S)))) by (rewrite EH; left; reflexivity).
+  - destruct (holes nc gc (fill (bb ++ [jof]) T W pc0) pc0 (AH (k + S))) as [|[p ra] r] eqn:EH; [reflexivity|exfalso].
+    assert (Hin : In (p, ra) (holes nc gc (fill (bb ++ [jof]) T W pc0) pc0 (AH (k + S)))) by (rewrite EH; left; reflexivity).
     destruct (holes_fill nc gc (bb ++ [jof]) T HTN W pc0 _ _ (proj1 BKW) p ra Hin) as [Hin0 HNs].
     destruct (HLW _ _ Hin0) as [_ [->|Hp]]; apply HNs; apply in_or_app; [right; left; reflexivity|left; exact Hp].
 Qed.
 
-Lemma TL_of_tloop S st st1 st' ops newc :
-  top_ok st -> csym st1 = csym st -> cbreaks st1 = cbreaks st -> AOK (solid ops) ->
+(* ---------- a straight-line prefix followed by a loop ---------- *)
+Lemma CTL_of_loop S st st1 st' ops newc :
+  SX (csym st) (csym st1) -> cbreaks st1 = cbreaks st -> AOK (solid ops) ->
   ccode st1 = ccode st ++ encode ops -> cconsts st1 = cconsts st ++ newc ->
-  (forall nc gc, N.of_nat (List.length (cconsts st1)) <= nc -> globals_below (csym st) gc -> runs nc gc ops 0 = Some (0 + S)) ->
-  TLOOP S st1 st' -> TL st st'.
+  (forall lc, lbw (csym st) lc -> Forall (lopk lc) ops) -> Inv (csym st) ->
+  (forall nc gc k, N.of_nat (List.length (cconsts st1)) <= nc -> gbw (csym st) gc -> runs nc gc ops k = Some (k + S)) ->
+  LOOPOK S st1 st' -> CTL st st'.
 Proof.
-  intros HT S1 B1 A C K R (T2 & M2 & B2 & new & newc2 & A2 & C2 & K2 & D2).
+  intros S1 B1 A C K L HI R (S2 & B2 & new & newc2 & A2 & C2 & K2 & L2 & D2).
   pose proof (pcof_app st st1 (solid ops)) as HP. rewrite strip_solid in HP. specialize (HP C A).
-  split; [exact T2|]. split; [rewrite <- S1; exact M2|]. exists (solid ops ++ new), (newc ++ newc2), [].
+  split; [eapply SX_trans; eauto|]. exists (solid ops ++ new), (newc ++ newc2), [].
+  split; [apply aok_app; assumption|].
+  split; [rewrite C2, C, encode_strip_app, strip_solid, app_assoc; reflexivity|].
+  split; [rewrite K2, K, app_assoc; reflexivity|].
+  split; [cbn [map]; rewrite app_nil_r; congruence|]. split; [constructor|]. split; [intros p []|].
+  split.
+  { intros lc HLc. pose proof (sx_bound _ _ S2) as X. pose proof (sx_bound _ _ S1) as X1.
+    apply lok_app; [apply lok_solid, L, inv_lbw; [exact HI|lia]|apply L2; exact HLc]. }
+  intros nc gc k Hnc HG.
+  assert (Hnc1 : N.of_nat (List.length (cconsts st1)) <= nc) by (rewrite K2, app_length in Hnc; lia).
+  destruct (runs_bok nc gc ops (pcof st) k (k + S) (R nc gc k Hnc1 HG)) as [BK1 HH1].
+  assert (HG1 : gbw (csym st1) gc) by (apply (sx_gbw _ _ S1); exact HG).
+  destruct (D2 nc gc k Hnc HG1) as [BK2 HH2]. rewrite HP in BK2, HH2.
+  split.
+  - eapply bok_app; [exact BK1|]. rewrite strip_solid. exact BK2.
+  - intros p ra Hin. apply (holes_app_in nc gc (solid ops) new (pcof st) _ _ _ (proj1 BK1)) in Hin.
+    rewrite HH1, strip_solid, HH2 in Hin. destruct Hin as [[]|[]].
+Qed.
+
+(* ---------- the fragment ---------- *)
+Definition ofrag (o : oexpr) : bool := match o with ONoneE => true | OSome e => efrag e end.
+
+(* statements that define a symbol in the current scope: inside a block it is
+   a local; at top level (a global) they are treated apart (TL) *)
+Definition needs_scope (s : stmt) : bool :=
+  match s with SDecl _ _ | SForStep (Some _) _ _ _ _ | SForIter (Some _) _ _ _ => true | _ => false end.
+
+Fixpoint cfrag_stmt (s : stmt) : bool :=
+  match s with
+  | SDecl _ e => efrag e
+  | SAssign (EVar _) e => efrag e
+  | SEmpty | SBreak => true
+  | SIf c b elifs els =>
+      efrag c && cfrag_slist b && cfrag_clist elifs &&
+      match els with NoElse => true | Else eb => cfrag_slist eb end
+  | SWhile c b => efrag c && cfrag_slist b
+  | SForStep _ start stop step b => ofrag start && efrag stop && ofrag step && cfrag_slist b
+  | SForIter _ t e b => match t with TStr | TArr | TMap => efrag e && cfrag_slist b | _ => false end
+  | _ => false
+  end
+with cfrag_slist (l : slist) : bool :=
+  match l with SNil => true | SCons s t => cfrag_stmt s && cfrag_slist t end
+with cfrag_clist (l : clist) : bool :=
+  match l with CNil => true | CCons c b t => efrag c && cfrag_slist b && cfrag_clist t end.
+
+Lemma ofrag_expr o d : ofrag o = true -> efrag (match o with OSome e => e | ONoneE => ENum d end) = true.
+Proof. destruct o; simpl; auto. Qed.
+
+(* the operands a for loop is entered with *)
+Definition PREFIX (S : N) (st s3 : cstate) : Prop :=
+  csym s3 = csym st /\ cbreaks s3 = cbreaks st /\
+  exists ops newc, AOK (solid ops) /\ ccode s3 = ccode st ++ encode ops /\ cconsts s3 = cconsts st ++ newc /\
+    (forall lc, lbw (csym st) lc -> Forall (lopk lc) ops) /\
+    (forall nc gc k, N.of_nat (List.length (cconsts s3)) <= nc -> gbw (csym st) gc -> runs nc gc ops k = Some (k + S)).
+
+Lemma forstep_prefix start stop step st s1 s2 s3 :
+  ofrag start = true -> efrag stop = true -> ofrag step = true -> has_gbw (csym st) ->
+  compile_expr true stop st = COk s1 ->
+  compile_expr true (match step with OSome e => e | ONoneE => ENum 1 end) s1 = COk s2 ->
+  compile_expr true (match start with OSome e => e | ONoneE => ENum 0 end) s2 = COk s3 ->
+  PREFIX 3 st s3.
+Proof.
+  intros F1 F2 F3 HGB E1 E2 E3.
+  destruct (expr_piece _ _ _ F2 E1 HGB) as (S1 & B1 & o1 & c1 & _ & A1 & C1 & K1 & R1 & L1).
+  assert (HGB1 : has_gbw (csym s1)) by (rewrite S1; exact HGB).
+  destruct (expr_piece _ _ _ (ofrag_expr step 1 F3) E2 HGB1) as (S2 & B2 & o2 & c2 & _ & A2 & C2 & K2 & R2 & L2).
+  assert (HGB2 : has_gbw (csym s2)) by (rewrite S2, S1; exact HGB).
+  destruct (expr_piece _ _ _ (ofrag_expr start 0 F1) E3 HGB2) as (S3 & B3 & o3 & c3 & _ & A3 & C3 & K3 & R3 & L3).
+  split; [congruence|]. split; [congruence|]. exists (o1 ++ o2 ++ o3), (c1 ++ c2 ++ c3).
+  split; [unfold solid; rewrite !map_app; apply aok_app; [exact A1|]; apply aok_app; [exact A2|exact A3]|].
+  split; [rewrite C3, C2, C1, !encode_app, <- !app_assoc; reflexivity|].
+  split; [rewrite K3, K2, K1, <- !app_assoc; reflexivity|]. split.
+  - intros lc HLc. apply Forall_app. split; [apply L1; exact HLc|]. apply Forall_app.
+    split; [apply L2; rewrite S1; exact HLc|apply L3; rewrite S2, S1; exact HLc].
+  - intros nc gc k Hnc HGl.
+    assert (N1 : N.of_nat (List.length (cconsts s1)) <= nc) by (rewrite K3, K2, !app_length in Hnc; lia).
+    assert (N2 : N.of_nat (List.length (cconsts s2)) <= nc) by (rewrite K3, !app_length in Hnc; lia).
+    eapply runs_app; [apply (R1 nc gc k N1 HGl)|].
+    eapply runs_app; [apply (R2 nc gc (k + 1) N2); rewrite S1; exact HGl|].
+    replace (k + 3) with (k + 1 + 1 + 1) by lia. apply (R3 nc gc (k + 1 + 1) Hnc). rewrite S2, S1. exact HGl.
+Qed.
+
+Lemma foriter_prefix e st s1 s2 : efrag e = true -> has_gbw (csym st) ->
+  compile_expr true e st = COk s1 -> emit_const true (KNum 0) s1 = COk s2 -> PREFIX 2 st s2.
+Proof.
+  intros F HGB E1 E2.
+  destruct (expr_piece _ _ _ F E1 HGB) as (S1 & B1 & o1 & c1 & _ & A1 & C1 & K1 & R1 & L1).
+  destruct (const_sl _ _ _ E2) as (RI & S2 & C2 & K2).
+  assert (B2 : cbreaks s2 = cbreaks s1) by (unfold emit_const in E2; apply emit_breaks in E2; exact E2).
+  split; [congruence|]. split; [congruence|].
+  exists (o1 ++ [(Constant, N.of_nat (List.length (cconsts s1)))]), (c1 ++ [KNum 0]).
+  split; [unfold solid; rewrite map_app; apply aok_app; [exact A1|]; constructor; [cbn; exact RI|constructor]|].
+  split; [rewrite C2, C1, !encode_app, <- !app_assoc; reflexivity|].
+  split; [rewrite K2, K1, <- !app_assoc; reflexivity|]. split.
+  - intros lc HLc. apply Forall_app. split; [apply L1; exact HLc|]. constructor; [apply lopk_nonlocal; reflexivity|constructor].
+  - intros nc gc k Hnc HGl.
+    assert (N1 : N.of_nat (List.length (cconsts s1)) <= nc) by (rewrite K2, !app_length in Hnc; lia).
+    eapply runs_app; [apply (R1 nc gc k N1 HGl)|]. cbn [runs].
+    rewrite sop_ok_const; [f_equal; lia| |exact RI]. rewrite K2, app_length in Hnc. simpl in Hnc. lia.
+Qed.
+
+(* a for loop inside the fragment: without a loop variable anywhere; with one
+   (a local of the enclosing block) only inside a block *)
+Lemma ctl_loop rop S lv b st s3 st' : range_op rop S -> slist_ctl b -> PREFIX S st s3 ->
+  for_loop true lv rop (Z.of_N S) b s3 = COk st' ->
+  (lv <> None -> outers (csym st) <> []) -> Inv (csym st) -> has_gbw (csym st) -> CTL st st'.
+Proof.
+  intros HRO HB (S3 & B3 & ops & newc & A & C & K & L & R) HC HO HI HGB.
+  destruct lv as [n|].
+  - specialize (HO ltac:(discriminate)).
+    pose proof (SX_define n (csym st) HO HI) as SXd.
+    assert (HI3 : Inv (csym s3)) by (rewrite S3; exact HI).
+    assert (HGB' : has_gbw (fst (st_define n (csym s3)))) by (rewrite S3; apply (sx_has_gbw _ _ SXd HGB)).
+    pose proof (for_loop_lv_ok rop S n b s3 st' HRO HB HC HI3 HGB') as HL. rewrite S3 in HL.
+    apply (CTL_of_loop S st (with_sym (fst (st_define n (csym st))) s3) st' ops newc); auto.
+  - assert (HI3 : Inv (csym s3)) by (rewrite S3; exact HI).
+    assert (HGB3 : has_gbw (csym s3)) by (rewrite S3; exact HGB).
+    pose proof (for_loop_ok rop S b s3 st' HRO HB HC HI3 HGB3) as HL.
+    apply (CTL_of_loop S st s3 st' ops newc); auto. apply SX_eq. exact S3.
+Qed.
+
+Lemma ctl_forstep lv start stop step b st st' :
+  ofrag start = true -> efrag stop = true -> ofrag step = true -> slist_ctl b ->
+  compile_stmt true (SForStep lv start stop step b) st = COk st' ->
+  (lv <> None -> outers (csym st) <> []) -> Inv (csym st) -> has_gbw (csym st) -> CTL st st'.
+Proof.
+  intros F1 F2 F3 HB HC HO HI HGB. cbn [compile_stmt] in HC.
+  destruct (compile_expr true stop st) as [s1|] eqn:E1; [|discriminate]. cbn [bind] in HC.
+  destruct (compile_expr true (match step with OSome e => e | ONoneE => ENum 1 end) s1) as [s2|] eqn:E2; [|discriminate]. cbn [bind] in HC.
+  destruct (compile_expr true (match start with OSome e => e | ONoneE => ENum 0 end) s2) as [s3|] eqn:E3; [|discriminate]. cbn [bind] in HC.
+  apply (ctl_loop StepRange 3 lv b st s3 st' (or_introl (conj eq_refl eq_refl)) HB
+           (forstep_prefix start stop step st s1 s2 s3 F1 F2 F3 HGB E1 E2 E3) HC HO HI HGB).
+Qed.
+
+Lemma ctl_foriter lv t e b st st' :
+  (t = TStr \/ t = TArr \/ t = TMap) -> efrag e = true -> slist_ctl b ->
+  compile_stmt true (SForIter lv t e b) st = COk st' ->
+  (lv <> None -> outers (csym st) <> []) -> Inv (csym st) -> has_gbw (csym st) -> CTL st st'.
+Proof.
+  intros Ht F HB HC HO HI HGB. cbn [compile_stmt] in HC.
+  assert (HC' : compile_expr true e st >>= emit_const true (KNum 0) >>= for_loop true lv IterRange 2 b = COk st')
+    by (destruct Ht as [->|[->| ->]]; exact HC). clear HC.
+  destruct (compile_expr true e st) as [s1|] eqn:E1; [|discriminate]. cbn [bind] in HC'.
+  destruct (emit_const true (KNum 0) s1) as [s2|] eqn:E2; [|discriminate]. cbn [bind] in HC'.
+  apply (ctl_loop IterRange 2 lv b st s2 st' (or_intror (conj eq_refl eq_refl)) HB
+           (foriter_prefix e st s1 s2 F HGB E1 E2) HC' HO HI HGB).
+Qed.
+
+(* ---------- the mutual induction ---------- *)
+Definition clist_ctl (l : clist) : Prop :=
+  forall jumps st st' jumps', compile_elifs true l jumps st = (COk st', jumps') ->
+    Inv (csym st) -> has_gbw (csym st) ->
+    exists xs, jumps' = jumps ++ map Z.of_N xs /\ CTLx xs st st'.
+
+Lemma ctl_if c b elifs els st st' :
+  efrag c = true -> slist_ctl b -> clist_ctl elifs ->
+  (match els with NoElse => True | Else eb => slist_ctl eb end) ->
+  compile_stmt true (SIf c b elifs els) st = COk st' -> Inv (csym st) -> has_gbw (csym st) -> CTL st st'.
+Proof.
+  intros F HB HE HL HC HG HGB. cbn [compile_stmt] in HC.
+  destruct (compile_cond true c b st) as [st1|] eqn:E1; [|discriminate]. cbn [bind] in HC.
+  destruct (ctl_cond c b st st1 F HB E1 HG HGB) as (ej & Eej & X1).
+  destruct (compile_elifs true elifs [(pos_of st1 - 3)%Z] st1) as [r jumps] eqn:E2.
+  destruct r as [st2|]; [|discriminate]. cbn [bind] in HC.
+  assert (HG1 : Inv (csym st1)) by (apply (sx_inv _ _ (proj1 X1)); exact HG).
+  assert (HGB1 : has_gbw (csym st1)) by (apply (sx_has_gbw _ _ (proj1 X1)); exact HGB).
+  destruct (HE _ _ _ _ E2 HG1 HGB1) as (xs & EJ & X2).
+  assert (HG2 : Inv (csym st2)) by (apply (sx_inv _ _ (proj1 X2)); exact HG1).
+  assert (HGB2 : has_gbw (csym st2)) by (apply (sx_has_gbw _ _ (proj1 X2)); exact HGB1).
+  assert (X3 : exists st3, (match els with NoElse => COk st2 | Else eb => compile_block true eb st2 end) = COk st3 /\
+                           CTL st2 st3 /\ patch_all true jumps (pos_of st3) st3 = COk st').
+  { destruct els as [|eb].
+    - cbn [bind] in HC. exists st2. split; [reflexivity|]. split; [apply CTL_refl|exact HC].
+    - destruct (compile_block true eb st2) as [st3|] eqn:E3; [|discriminate]. cbn [bind] in HC.
+      exists st3. split; [reflexivity|]. split; [apply (ctl_block eb st2 st3 HL E3 HG2 HGB2)|exact HC]. }
+  destruct X3 as (st3 & _ & X3 & HP).
+  pose proof (ctlx_trans _ _ _ _ _ X1 (ctlx_trans _ _ _ _ _ X2 (ctlx_of_ctl _ _ X3))) as XA.
+  eapply (ctlx_close _ st st3 st' HGB XA).
+  rewrite EJ, <- Eej in HP. rewrite app_nil_r. exact HP.
+Qed.
+
+Theorem ctl_all :
+  (forall s, cfrag_stmt s = true -> forall st st', compile_stmt true s st = COk st' ->
+             (needs_scope s = true -> outers (csym st) <> []) ->
+             Inv (csym st) -> has_gbw (csym st) -> CTL st st') /\
+  (forall l, cfrag_slist l = true -> slist_ctl l) /\
+  (forall l, cfrag_clist l = true -> clist_ctl l) /\
+  (forall o, match o with NoElse => True | Else b => cfrag_slist b = true -> slist_ctl b end).
+Proof.
+  apply stmt_mutind.
+  - (* SDecl *) intros n e HF st st' HC HO HG HGB. apply (ctl_decl n e st st' HF HC (HO eq_refl) HG HGB).
+  - (* SAssign *) intros target e HF st st' HC _ HG HGB. destruct target; try discriminate HF.
+    apply (ctl_assign n e st st' HF HC HG HGB).
+  - (* SIf *) intros c b Hb elifs He els Ho HF st st' HC _ HG HGB. cbn [cfrag_stmt] in HF.
+    apply andb_true_iff in HF. destruct HF as [HF F4]. apply andb_true_iff in HF. destruct HF as [HF F3].
+    apply andb_true_iff in HF. destruct HF as [F1 F2].
+    apply (ctl_if c b elifs els st st' F1 (Hb F2) (He F3)); auto.
+    destruct els; [exact I|apply Ho; exact F4].
+  - (* SWhile *) intros c b Hb HF st st' HC _ HG HGB. cbn [cfrag_stmt] in HF. apply andb_true_iff in HF. destruct HF as [F1 F2].
+    apply (ctl_while c b st st' F1 (Hb F2) HC HG HGB).
+  - (* SForStep *) intros lv start stop step b Hb HF st st' HC HO HG HGB. cbn [cfrag_stmt] in HF.
+    apply andb_true_iff in HF. destruct HF as [HF F4]. apply andb_true_iff in HF. destruct HF as [HF F3].
+    apply andb_true_iff in HF. destruct HF as [F1 F2].
+    apply (ctl_forstep lv start stop step b st st' F1 F2 F3 (Hb F4) HC); auto.
+    intro NE. apply HO. destruct lv; [reflexivity|congruence].
+  - (* SForIter *) intros lv t e b Hb HF st st' HC HO HG HGB. cbn [cfrag_stmt] in HF.
+    assert (Ht : t = TStr \/ t = TArr \/ t = TMap) by (destruct t; try discriminate HF; auto).
+    assert (HF' : efrag e && cfrag_slist b = true) by (destruct t; try discriminate HF; exact HF).
+    apply andb_true_iff in HF'. destruct HF' as [F1 F2].
+    apply (ctl_foriter lv t e b st st' Ht F1 (Hb F2) HC); auto.
+    intro NE. apply HO. destruct lv; [reflexivity|congruence].
+  - (* SBreak *) intros _ st st' HC _ _ _. apply (ctl_break st st' HC).
+  - (* SEmpty *) intros _ st st' HC _ _ _. cbn [compile_stmt] in HC. inversion HC; subst. apply CTL_refl.
+  - (* SBlock *) intros b _ HF. discriminate.
+  - (* SUnsupported *) intros w HF. discriminate.
+  - (* SNil *) intros _ st st' HC _ _ _. cbn [body_of] in HC. inversion HC; subst. apply CTL_refl.
+  - (* SCons *) intros s Hs t Ht HF st st' HC HO HG HGB. cbn [cfrag_slist] in HF. apply andb_true_iff in HF. destruct HF as [F1 F2].
+    cbn [body_of] in HC. destruct (compile_stmt true s st) as [st1|] eqn:E1; [|discriminate]. cbn [bind] in HC.
+    pose proof (Hs F1 st st1 E1 (fun _ => HO) HG HGB) as X1. rewrite compile_slist_body in HC.
+    assert (HO1 : outers (csym st1) <> []) by (rewrite (sx_out _ _ (proj1 X1)); exact HO).
+    assert (HG1 : Inv (csym st1)) by (apply (sx_inv _ _ (proj1 X1)); exact HG).
+    assert (HGB1 : has_gbw (csym st1)) by (apply (sx_has_gbw _ _ (proj1 X1)); exact HGB).
+    apply (CTL_trans st st1 st' X1 (Ht F2 st1 st' HC HO1 HG1 HGB1)).
+  - (* CNil *) intros _ jumps st st' jumps' HC _ _. cbn [compile_elifs] in HC. inversion HC; subst.
+    exists []. split; [cbn [map]; rewrite app_nil_r; reflexivity|apply ctlx_of_ctl; apply CTL_refl].
+  - (* CCons *) intros c b Hb t Ht HF jumps st st' jumps' HC HG HGB. cbn [cfrag_clist] in HF.
+    apply andb_true_iff in HF. destruct HF as [HF F3]. apply andb_true_iff in HF. destruct HF as [F1 F2].
+    cbn [compile_elifs] in HC. destruct (compile_cond true c b st) as [st1|] eqn:E1; [|inversion HC].
+    destruct (ctl_cond c b st st1 F1 (Hb F2) E1 HG HGB) as (ej & Eej & X1).
+    assert (HG1 : Inv (csym st1)) by (apply (sx_inv _ _ (proj1 X1)); exact HG).
+    assert (HGB1 : has_gbw (csym st1)) by (apply (sx_has_gbw _ _ (proj1 X1)); exact HGB).
+    destruct (Ht F3 _ _ _ _ HC HG1 HGB1) as (xs & EJ & X2).
+    exists (ej :: xs). split; [rewrite EJ, <- Eej, <- app_assoc; reflexivity|].
+    apply (ctlx_trans [ej] xs st st1 st' X1 X2).
+  - (* NoElse *) exact I.
+  - (* Else *) intros b Hb. exact Hb.
+Qed.
+
+(* ====================================================================== *)
+(* whole programs: top-level declarations and the control-flow fragment    *)
+(* ====================================================================== *)
+(* the top level: the global scope is the current one; blocks may have left a
+   LocalCount (nmax) behind *)
+Definition top_ok2 (st : cstate) : Prop := outers (csym st) = [] /\ Inv (csym st).
+
+Lemma top_ok_top_ok2 st : top_ok st -> top_ok2 st.
+Proof. intros (A & B & _). split; assumption. Qed.
+
+Lemma top_gbw st gc : top_ok2 st -> index (cur (csym st)) <= gc -> gbw (csym st) gc.
+Proof. intros (HO & HI) HL n y HR _. destruct (sym_top_globals _ HO HI n y HR) as [_ R]. lia. Qed.
+
+Lemma top_lbw2 st lc : top_ok2 st -> lbw (csym st) lc.
+Proof. intros (HO & HI) n y HR HS. destruct (sym_top_globals _ HO HI n y HR) as [S _]. congruence. Qed.
+
+Definition TL (st st' : cstate) : Prop :=
+  top_ok2 st' /\ index (cur (csym st)) <= index (cur (csym st')) /\ bound (csym st) <= bound (csym st') /\
+  exists new newc newb,
+    AOK new /\
+    ccode st' = ccode st ++ encode (strip new) /\
+    cconsts st' = cconsts st ++ newc /\
+    cbreaks st' = cbreaks st ++ map Z.of_N newb /\
+    (forall p, In p newb -> hole_at new (pcof st) p) /\
+    (forall lc, bound (csym st') <= lc -> LOK lc new) /\
+    forall nc gc, N.of_nat (List.length (cconsts st')) <= nc -> index (cur (csym st')) <= gc ->
+      BOK nc gc new (pcof st) (AH 0) (AH 0) /\
+      forall p ra, In (p, ra) (holes nc gc new (pcof st) (AH 0)) -> In p newb.
+
+Lemma TL_refl st : top_ok2 st -> TL st st.
+Proof.
+  intro HT. split; [exact HT|]. split; [lia|]. split; [lia|]. exists [], [], []. split; [constructor|].
+  split; [simpl; rewrite app_nil_r; reflexivity|]. split; [rewrite app_nil_r; reflexivity|].
+  split; [simpl; rewrite app_nil_r; reflexivity|]. split; [intros p []|]. split; [intros; apply lok_nil|].
+  intros nc gc _ _. split; [split; simpl; auto|intros p ra []].
+Qed.
+
+Lemma TL_trans st st1 st2 : TL st st1 -> TL st1 st2 -> TL st st2.
+Proof.
+  intros (T1 & M1 & N1 & n1 & c1 & b1 & A1 & C1 & K1 & B1 & H1 & L1 & D1) (T2 & M2 & N2 & n2 & c2 & b2 & A2 & C2 & K2 & B2 & H2 & L2 & D2).
+  pose proof (pcof_app st st1 n1 C1 A1) as HP.
+  split; [exact T2|]. split; [lia|]. split; [lia|]. exists (n1 ++ n2), (c1 ++ c2), (b1 ++ b2).
+  split; [apply aok_app; assumption|].
+  split; [rewrite C2, C1, strip_app; unfold encode; rewrite flat_map_app, app_assoc; reflexivity|].
+  split; [rewrite K2, K1, app_assoc; reflexivity|].
+  split; [rewrite B2, B1, map_app, app_assoc; reflexivity|].
+  split.
+  { intros p Hp. apply in_app_or in Hp. destruct Hp as [Hp|Hp].
+    - apply hole_at_app_l. apply H1. exact Hp.
+    - apply hole_at_app_r. rewrite <- HP. apply H2. exact Hp. }
+  split; [intros lc HLc; apply lok_app; [apply L1; lia|apply L2; exact HLc]|].
+  intros nc gc Hnc Hgc.
+  assert (Hnc1 : N.of_nat (List.length (cconsts st1)) <= nc) by (rewrite K2, app_length in Hnc; lia).
+  destruct (D1 nc gc Hnc1 ltac:(lia)) as [BK1 HL1].
+  destruct (D2 nc gc Hnc Hgc) as [BK2 HL2]. rewrite HP in BK2, HL2.
+  split; [eapply bok_app; eauto|].
+  intros p ra Hin. apply (holes_app_in nc gc n1 n2 (pcof st) _ _ _ (proj1 BK1)) in Hin.
+  destruct Hin as [Hin|Hin]; apply in_or_app; [left; apply (HL1 _ _ Hin)|right; apply (HL2 _ _ Hin)].
+Qed.
+
+Lemma TL_of_CTL st st' : top_ok2 st -> CTL st st' -> TL st st'.
+Proof.
+  intros HT (S & new & newc & newb & A & C & K & B & ND & H & L & D). pose proof HT as (HO & HI).
+  destruct (sx_top _ _ S HO) as [ES EI].
+  assert (HT' : top_ok2 st') by (split; [rewrite (sx_out _ _ S); exact HO|apply (sx_inv _ _ S); exact HI]).
+  split; [exact HT'|]. split; [lia|]. split; [apply (sx_bound _ _ S)|].
+  exists new, newc, newb. repeat (split; [assumption|]).
+  intros nc gc Hnc Hgc. rewrite EI in Hgc.
+  destruct (D nc gc 0 Hnc (top_gbw st gc HT Hgc)) as [BK HL]. split; [exact BK|]. intros p ra Hin. apply (HL _ _ Hin).
+Qed.
+
+(* a top-level declaration defines a global *)
+Lemma TL_of_decl n e st st' : efrag e = true -> top_ok2 st ->
+  compile_stmt true (SDecl n e) st = COk st' -> TL st st'.
+Proof.
+  intros HF HT HC. pose proof HT as (HO & HI). cbn [compile_stmt] in HC.
+  destruct (compile_expr true e st) as [st1|] eqn:E1; [|discriminate]. cbn [bind] in HC.
+  assert (HGB : has_gbw (csym st)) by (exists (index (cur (csym st))); apply top_gbw; [exact HT|lia]).
+  destruct (expr_piece e st st1 HF E1 HGB) as (S1 & B1 & ops & newc & NE & A & C & K & R & L).
+  destruct (st_define n (csym st1)) as [sym' y] eqn:ED. rewrite S1 in ED.
+  assert (HD1 : fst (st_define n (csym st)) = sym') by (rewrite ED; reflexivity).
+  assert (HD2 : snd (st_define n (csym st)) = y) by (rewrite ED; reflexivity).
+  destruct (define_frame n (csym st)) as (F1 & F2 & F3). rewrite HD1 in F1, F2, F3.
+  pose proof (inv_define n (csym st) HI) as HI'. rewrite HD1 in HI'.
+  pose proof (define_then_resolve (csym st) n) as DR. rewrite HD1, HD2 in DR.
+  assert (HO' : outers sym' = []) by congruence.
+  destruct (sym_top_globals _ HO' HI' _ _ DR) as [SG RG].
+  pose proof (bound_step (SDefine n) (csym st)) as HBd. cbn [st_step] in HBd. rewrite ED in HBd. cbn [fst] in HBd.
+  destruct (set_var_sl y (with_sym sym' st1) st' HC) as (E1' & E2' & E4' & E3' & HRng).
+  cbn [with_sym csym ccode cconsts cbreaks] in E1', E2', E3', E4'.
+  split; [split; rewrite E1'; assumption|]. split; [rewrite E1'; exact F3|]. split; [rewrite E1'; exact HBd|].
+  exists (solid (ops ++ [(setop y, sidx y)])), newc, [].
+  split; [unfold solid; rewrite map_app; apply aok_app; [exact A|]; constructor; [cbn; exact HRng|constructor]|].
+  split; [rewrite strip_solid, E3', C, encode_app, app_assoc; reflexivity|]. split; [rewrite E2'; exact K|].
+  split; [cbn [map]; rewrite app_nil_r; congruence|]. split; [intros p []|].
+  split.
+  { intros lc _. apply lok_solid, Forall_app. split; [apply L, top_lbw2, HT|]. constructor; [|constructor].
+    apply lopk_setvar. intro X. congruence. }
+  intros nc gc Hnc Hgc. rewrite E1' in Hgc.
+  assert (RR : runs nc gc (ops ++ [(setop y, sidx y)]) 0 = Some 0).
+  { eapply runs_app; [apply (R nc gc 0); [rewrite <- E2'; exact Hnc|apply top_gbw; [exact HT|lia]]|].
+    cbn [runs]. rewrite sop_ok_setvar; [reflexivity|intros _; lia|exact HRng]. }
+  destruct (runs_bok nc gc _ (pcof st) 0 0 RR) as [BK HH]. split; [exact BK|]. rewrite HH. intros p ra [].
+Qed.
+
+Lemma top_gsym st : top_ok st -> gsym (csym st) /\ has_gb (csym st).
+Proof.
+  intros HT. pose proof HT as (HO & HI & HN). split.
+  - split; [exact HN|]. rewrite HO. congruence.
+  - exists (index (cur (csym st))). apply top_globals. exact HT.
+Qed.
+
+Lemma top_has_gbw st : top_ok2 st -> has_gbw (csym st).
+Proof. intro HT. exists (index (cur (csym st))). apply top_gbw; [exact HT|lia]. Qed.
+
+(* a top-level for loop WITH a loop variable: the variable is a global (see
+   finding vm-loopvar-global) *)
+Lemma tl_loop rop S n b st s3 st' : range_op rop S -> slist_ctl b -> PREFIX S st s3 ->
+  for_loop true (Some n) rop (Z.of_N S) b s3 = COk st' -> top_ok2 st -> TL st st'.
+Proof.
+  intros HRO HB (S3 & B3 & ops & newc & A & C & K & L & R) HC HT. pose proof HT as (HO & HI).
+  set (sym' := fst (st_define n (csym st))).
+  destruct (define_frame n (csym st)) as (F1 & F2 & F3). fold sym' in F1, F2, F3.
+  pose proof (inv_define n (csym st) HI) as HI'. fold sym' in HI'.
+  assert (HT1 : top_ok2 (with_sym sym' s3)) by (split; cbn [with_sym csym]; [congruence|exact HI']).
+  assert (HI3 : Inv (csym s3)) by (rewrite S3; exact HI).
+  assert (HGB' : has_gbw (fst (st_define n (csym s3)))) by (rewrite S3; apply (top_has_gbw _ HT1)).
+  pose proof (for_loop_lv_ok rop S n b s3 st' HRO HB HC HI3 HGB') as HL. rewrite S3 in HL. fold sym' in HL.
+  destruct HL as (S2 & B2 & new & newc2 & A2 & C2 & K2 & L2 & D2). cbn [with_sym csym ccode cconsts cbreaks] in S2, B2, C2, K2, L2, D2.
+  assert (HO' : outers sym' = []) by congruence.
+  destruct (sx_top _ _ S2 HO') as [_ EI].
+  pose proof (bound_step (SDefine n) (csym st)) as HBd. cbn [st_step] in HBd.
+  assert (HBd' : bound (csym st) <= bound sym') by (unfold sym'; destruct (st_define n (csym st)); exact HBd).
+  pose proof (pcof_app st s3 (solid ops)) as HP. rewrite strip_solid in HP. specialize (HP C A).
+  split; [split; [rewrite (sx_out _ _ S2); exact HO'|apply (sx_inv _ _ S2); exact HI']|].
+  split; [lia|]. split; [pose proof (sx_bound _ _ S2); lia|].
+  exists (solid ops ++ new), (newc ++ newc2), [].
   split; [apply aok_app; assumption|].
   split; [rewrite C2, C, encode_strip_app, strip_solid, app_assoc; reflexivity|].
   split; [rewrite K2, K, app_assoc; reflexivity|].
   split; [cbn [map]; rewrite app_nil_r; congruence|]. split; [intros p []|].
+  split; [intros lc HLc; apply lok_app; [apply lok_solid, L, top_lbw2, HT|apply L2; exact HLc]|].
   intros nc gc Hnc Hgc.
-  assert (Hnc1 : N.of_nat (List.length (cconsts st1)) <= nc) by (rewrite K2, app_length in Hnc; lia).
-  assert (HG : globals_below (csym st) gc).
-  { intros n y HR. destruct (top_globals st HT n y HR) as [E1 E2]. split; [exact E1|]. rewrite <- S1 in E2. lia. }
-  destruct (runs_bok nc gc ops (pcof st) 0 (0 + S) (R nc gc Hnc1 HG)) as [BK1 HH1].
-  destruct (D2 nc gc Hnc Hgc) as [BK2 HH2]. rewrite HP in BK2, HH2.
+  assert (Hnc1 : N.of_nat (List.length (cconsts s3)) <= nc) by (rewrite K2, app_length in Hnc; lia).
+  assert (HG : gbw (csym st) gc) by (apply top_gbw; [exact HT|lia]).
+  assert (HG' : gbw sym' gc) by (apply (top_gbw (with_sym sym' s3)); [exact HT1|cbn [with_sym csym]; lia]).
+  destruct (runs_bok nc gc ops (pcof st) 0 (0 + S) (R nc gc 0 Hnc1 HG)) as [BK1 HH1].
+  destruct (D2 nc gc 0 Hnc HG') as [BK2 HH2].
+  change (pcof (with_sym sym' s3)) with (pcof s3) in BK2, HH2. rewrite HP in BK2, HH2.
   split.
   - eapply bok_app; [exact BK1|]. rewrite strip_solid. exact BK2.
   - intros p ra Hin. apply (holes_app_in nc gc (solid ops) new (pcof st) _ _ _ (proj1 BK1)) in Hin.
@@ -1511,82 +1685,56 @@ Qed.
 
 Lemma tl_forstep_lv n start stop step b st st' :
   ofrag start = true -> efrag stop = true -> ofrag step = true -> slist_ctl b ->
-  compile_stmt true (SForStep (Some n) start stop step b) st = COk st' -> top_ok st -> TL st st'.
+  compile_stmt true (SForStep (Some n) start stop step b) st = COk st' -> top_ok2 st -> TL st st'.
 Proof.
-  intros F1 F2 F3 HB HC HT. destruct (top_gsym st HT) as [HG HGB]. cbn [compile_stmt] in HC.
+  intros F1 F2 F3 HB HC HT. cbn [compile_stmt] in HC.
   destruct (compile_expr true stop st) as [s1|] eqn:E1; [|discriminate]. cbn [bind] in HC.
   destruct (compile_expr true (match step with OSome e => e | ONoneE => ENum 1 end) s1) as [s2|] eqn:E2; [|discriminate]. cbn [bind] in HC.
   destruct (compile_expr true (match start with OSome e => e | ONoneE => ENum 0 end) s2) as [s3|] eqn:E3; [|discriminate]. cbn [bind] in HC.
-  destruct (expr_piece _ _ _ F2 E1 HGB) as (S1 & B1 & o1 & c1 & _ & A1 & C1 & K1 & R1).
-  assert (HGB1 : has_gb (csym s1)) by (rewrite S1; exact HGB).
-  destruct (expr_piece _ _ _ (ofrag_expr step 1 F3) E2 HGB1) as (S2 & B2 & o2 & c2 & _ & A2 & C2 & K2 & R2).
-  assert (HGB2 : has_gb (csym s2)) by (rewrite S2, S1; exact HGB).
-  destruct (expr_piece _ _ _ (ofrag_expr start 0 F1) E3 HGB2) as (S3 & B3 & o3 & c3 & _ & A3 & C3 & K3 & R3).
-  assert (HT3 : top_ok s3) by (unfold top_ok; rewrite S3, S2, S1; exact HT).
-  pose proof (for_loop_lv_ok StepRange 3 n b s3 st' (or_introl (conj eq_refl eq_refl)) HB HC HT3) as HL.
-  apply (TL_of_tloop 3 st s3 st' (o1 ++ o2 ++ o3) (c1 ++ c2 ++ c3) HT); try congruence.
-  - unfold solid. rewrite !map_app. apply aok_app; [exact A1|]. apply aok_app; [exact A2|exact A3].
-  - rewrite C3, C2, C1, !encode_app, <- !app_assoc. reflexivity.
-  - rewrite K3, K2, K1, <- !app_assoc. reflexivity.
-  - intros nc gc Hnc HGl.
-    assert (N1 : N.of_nat (List.length (cconsts s1)) <= nc) by (rewrite K3, K2, !app_length in Hnc; lia).
-    assert (N2 : N.of_nat (List.length (cconsts s2)) <= nc) by (rewrite K3, !app_length in Hnc; lia).
-    eapply runs_app; [apply (R1 nc gc 0 N1 HGl)|].
-    eapply runs_app; [apply (R2 nc gc (0 + 1) N2); rewrite S1; exact HGl|].
-    replace (0 + 3) with (0 + 1 + 1 + 1) by lia. apply (R3 nc gc (0 + 1 + 1) Hnc). rewrite S2, S1. exact HGl.
+  apply (tl_loop StepRange 3 n b st s3 st' (or_introl (conj eq_refl eq_refl)) HB
+           (forstep_prefix start stop step st s1 s2 s3 F1 F2 F3 (top_has_gbw st HT) E1 E2 E3) HC HT).
 Qed.
 
 Lemma tl_foriter_lv n t e b st st' :
   (t = TStr \/ t = TArr \/ t = TMap) -> efrag e = true -> slist_ctl b ->
-  compile_stmt true (SForIter (Some n) t e b) st = COk st' -> top_ok st -> TL st st'.
+  compile_stmt true (SForIter (Some n) t e b) st = COk st' -> top_ok2 st -> TL st st'.
 Proof.
-  intros Ht F HB HC HT. destruct (top_gsym st HT) as [HG HGB]. cbn [compile_stmt] in HC.
+  intros Ht F HB HC HT. cbn [compile_stmt] in HC.
   assert (HC' : compile_expr true e st >>= emit_const true (KNum 0) >>= for_loop true (Some n) IterRange 2 b = COk st')
     by (destruct Ht as [->|[->| ->]]; exact HC). clear HC.
   destruct (compile_expr true e st) as [s1|] eqn:E1; [|discriminate]. cbn [bind] in HC'.
   destruct (emit_const true (KNum 0) s1) as [s2|] eqn:E2; [|discriminate]. cbn [bind] in HC'.
-  destruct (expr_piece _ _ _ F E1 HGB) as (S1 & B1 & o1 & c1 & _ & A1 & C1 & K1 & R1).
-  destruct (const_sl _ _ _ E2) as (RI & S2 & C2 & K2).
-  assert (B2 : cbreaks s2 = cbreaks s1) by (unfold emit_const in E2; apply emit_breaks in E2; exact E2).
-  assert (HT2 : top_ok s2) by (unfold top_ok; rewrite S2, S1; exact HT).
-  pose proof (for_loop_lv_ok IterRange 2 n b s2 st' (or_intror (conj eq_refl eq_refl)) HB HC' HT2) as HL.
-  apply (TL_of_tloop 2 st s2 st' (o1 ++ [(Constant, N.of_nat (List.length (cconsts s1)))]) (c1 ++ [KNum 0]) HT); try congruence.
-  - unfold solid. rewrite map_app. apply aok_app; [exact A1|]. constructor; [cbn; exact RI|constructor].
-  - rewrite C2, C1, !encode_app, <- !app_assoc. reflexivity.
-  - rewrite K2, K1, <- !app_assoc. reflexivity.
-  - intros nc gc Hnc HGl.
-    assert (N1 : N.of_nat (List.length (cconsts s1)) <= nc) by (rewrite K2, !app_length in Hnc; lia).
-    eapply runs_app; [apply (R1 nc gc 0 N1 HGl)|]. cbn [runs].
-    rewrite sop_ok_const; [f_equal; lia| |exact RI]. rewrite K2, app_length in Hnc. simpl in Hnc. lia.
+  apply (tl_loop IterRange 2 n b st s2 st' (or_intror (conj eq_refl eq_refl)) HB
+           (foriter_prefix e st s1 s2 F (top_has_gbw st HT) E1 E2) HC' HT).
 Qed.
 
-(* the program fragment with top-level loop variables *)
-Definition pfrag_stmt2 (s : stmt) : bool :=
-  match s with
-  | SDecl _ e => efrag e
-  | SForStep (Some _) start stop step b => ofrag start && efrag stop && ofrag step && cfrag_slist b
-  | SForIter (Some _) t e b => match t with TStr | TArr | TMap => efrag e && cfrag_slist b | _ => false end
-  | _ => cfrag_stmt s
-  end.
+(* the program fragment: at top level, declarations and for loops with a loop
+   variable define globals; everything else, and everything inside blocks, is
+   the control-flow fragment cfrag (which has declarations and loop variables
+   of its own: locals) *)
+Definition pfrag_stmt2 (s : stmt) : bool := cfrag_stmt s.
 Fixpoint pfrag2 (p : slist) : bool :=
   match p with SNil => true | SCons s t => pfrag_stmt2 s && pfrag2 t end.
 
-Lemma pfrag2_TL p : forall st st', pfrag2 p = true -> compile_slist true p st = COk st' -> top_ok st -> TL st st'.
+Lemma pfrag2_TL p : forall st st', pfrag2 p = true -> compile_slist true p st = COk st' -> top_ok2 st -> TL st st'.
 Proof.
   induction p as [|s t IH]; intros st st' HF HC HT.
   - simpl in HC. inversion HC; subst. apply TL_refl. exact HT.
   - cbn [pfrag2] in HF. apply andb_true_iff in HF. destruct HF as [F1 F2]. cbn [compile_slist] in HC.
     destruct (compile_stmt true s st) as [st1|] eqn:E1; [|discriminate]. cbn [bind] in HC.
     assert (X1 : TL st st1).
-    { destruct (top_gsym st HT) as [HG HGB].
-      destruct s; try (apply TL_of_CTL; [exact HT|]; apply (proj1 ctl_all _ F1 st st1 E1 HG HGB)).
+    { unfold pfrag_stmt2 in F1.
+      assert (GEN : needs_scope s = false -> TL st st1).
+      { intro NS. apply TL_of_CTL; [exact HT|].
+        apply (proj1 ctl_all _ F1 st st1 E1 ltac:(intro X; congruence) (proj2 HT) (top_has_gbw st HT)). }
+      destruct s; try (apply GEN; reflexivity).
       - apply (TL_of_decl n e st st1 F1 HT E1).
-      - destruct lv as [n|]; [|apply TL_of_CTL; [exact HT|]; apply (proj1 ctl_all _ F1 st st1 E1 HG HGB)].
-        cbn [pfrag_stmt2] in F1. apply andb_true_iff in F1. destruct F1 as [F1 G4]. apply andb_true_iff in F1. destruct F1 as [F1 G3].
+      - destruct lv as [n|]; [|apply GEN; reflexivity].
+        cbn [cfrag_stmt] in F1. apply andb_true_iff in F1. destruct F1 as [F1 G4]. apply andb_true_iff in F1. destruct F1 as [F1 G3].
         apply andb_true_iff in F1. destruct F1 as [G1 G2].
         apply (tl_forstep_lv n start stop step b st st1 G1 G2 G3 (proj1 (proj2 ctl_all) b G4) E1 HT).
-      - destruct lv as [n|]; [|apply TL_of_CTL; [exact HT|]; apply (proj1 ctl_all _ F1 st st1 E1 HG HGB)].
-        cbn [pfrag_stmt2] in F1.
+      - destruct lv as [n|]; [|apply GEN; reflexivity].
+        cbn [cfrag_stmt] in F1.
         assert (Ht : t0 = TStr \/ t0 = TArr \/ t0 = TMap) by (destruct t0; try discriminate F1; auto).
         assert (HF' : efrag e && cfrag_slist b = true) by (destruct t0; try discriminate F1; exact F1).
         apply andb_true_iff in HF'. destruct HF' as [G1 G2].
@@ -1594,21 +1742,68 @@ Proof.
     apply (TL_trans st st1 st' X1). apply (IH st1 st' F2 HC). apply X1.
 Qed.
 
-(* compile_wf for the fragment including `for x := range …` at top level *)
+(* the end of a program: no open scope, so the bound is LocalCount *)
+Lemma TL_WF st : TL cinit st -> cbreaks st = [] ->
+  WF {| bcode := out_code (bytecode_of st); nconsts := N.of_nat (List.length (out_consts (bytecode_of st)));
+        gcount := out_gcount (bytecode_of st); lcount := out_lcount (bytecode_of st) |}.
+Proof.
+  intros ((T1 & T2) & _ & _ & new & newc & newb & A & C & K & B & H & L & D) HB.
+  simpl in C, K, B. rewrite HB in B. assert (newb = []) by (destruct newb; [reflexivity|discriminate]). subst newb.
+  unfold bytecode_of. cbn [out_code out_consts out_gcount out_lcount]. unfold st_local_count, st_global_count.
+  rewrite C.
+  destruct (D (N.of_nat (List.length (cconsts st))) (index (cur (csym st))) (N.le_refl _) (N.le_refl _)) as [BK HL].
+  change (pcof cinit) with 0 in BK, HL.
+  apply bok_WF; [exact BK| |apply L; rewrite (bound_top _ T1); lia].
+  destruct (holes _ _ new 0 (AH 0)) as [|[q ra] r] eqn:EH; [reflexivity|].
+  exfalso. apply (HL q ra). left. reflexivity.
+Qed.
+
+Lemma top_ok2_init : top_ok2 cinit.
+Proof. split; [reflexivity|apply inv_new]. Qed.
+
+(* compile_wf: declarations and for loops with a loop variable at top level
+   (globals) and inside blocks (locals), assignments to globals and locals,
+   if / else-if / else, while, break, for over step ranges and iterables
+   without loop variable — nested arbitrarily.  If the compiler succeeds (and
+   no break is left outside a loop, which the parser guarantees), its output
+   satisfies WF; in particular every OpGetLocal / OpSetLocal operand is below
+   the LocalCount of the emitted program (SymTabProofs.bound along the
+   compilation).  No size guard: out-of-range operands and jump targets are
+   compile errors at HEAD. *)
 Theorem compile_wf_ctl2 : forall (p : slist) (st : cstate),
   pfrag2 p = true -> compile p = COk st -> cbreaks st = [] ->
   WF {| bcode := out_code (bytecode_of st); nconsts := N.of_nat (List.length (out_consts (bytecode_of st)));
         gcount := out_gcount (bytecode_of st); lcount := out_lcount (bytecode_of st) |}.
 Proof.
   intros p st HF HC HB. unfold compile, compile_program in HC.
-  assert (HT : top_ok cinit) by (split; [reflexivity|split; [apply inv_new|reflexivity]]).
-  destruct (pfrag2_TL p cinit st HF HC HT) as ((T1 & T2 & T3) & _ & new & newc & newb & A & C & K & B & H & D).
-  simpl in C, K, B. rewrite HB in B. assert (newb = []) by (destruct newb; [reflexivity|discriminate]). subst newb.
-  unfold bytecode_of. cbn [out_code out_consts out_gcount out_lcount]. unfold st_local_count, st_global_count.
-  rewrite T3, C.
-  destruct (D (N.of_nat (List.length (cconsts st))) (index (cur (csym st))) (N.le_refl _) (N.le_refl _)) as [BK HL].
-  change (pcof cinit) with 0 in BK, HL.
-  apply bok_WF; [exact BK|].
-  destruct (holes _ _ new 0 (AH 0)) as [|[q ra] r] eqn:EH; [reflexivity|].
-  exfalso. apply (HL q ra). left. reflexivity.
+  apply TL_WF; [|exact HB]. apply (pfrag2_TL p cinit st HF HC top_ok2_init).
+Qed.
+
+(* what WF says about the local accesses, spelled out: every OpGetLocal /
+   OpSetLocal of the emitted code addresses a slot below LocalCount *)
+Theorem compile_local_operands : forall (p : slist) (st : cstate),
+  pfrag2 p = true -> compile p = COk st -> cbreaks st = [] ->
+  forall instrs pc i, decode_all (ccode st) = Some instrs -> In (pc, i) instrs ->
+    (opc_of_N (iop i) = Some GetLocal \/ opc_of_N (iop i) = Some SetLocal) ->
+    arg0 i < st_local_count (csym st).
+Proof.
+  intros p st HF HC HB instrs pc i HD HI HO.
+  destruct (compile_wf_ctl2 p st HF HC HB) as (instrs' & h & D & O & _).
+  unfold bytecode_of in D, O. cbn [bcode out_code] in D. rewrite HD in D. inversion D; subst instrs'.
+  destruct (O pc i HI) as [OK _]. unfold operand_ok in OK. cbn [lcount out_lcount] in OK.
+  destruct HO as [E|E]; rewrite E in OK; apply N.ltb_lt in OK; exact OK.
+Qed.
+
+(* every statement of the fragment, compiled inside a block, keeps the
+   symbol-table invariant (hence: names visible at the same time have
+   different slots, visible_no_sharing), leaves the enclosing scopes alone and
+   never lowers the bound that becomes LocalCount *)
+Theorem compile_stmt_table : forall s st st',
+  cfrag_stmt s = true -> compile_stmt true s st = COk st' ->
+  outers (csym st) <> [] -> Inv (csym st) -> has_gbw (csym st) ->
+  Inv (csym st') /\ outers (csym st') = outers (csym st) /\ bound (csym st) <= bound (csym st').
+Proof.
+  intros s st st' HF HC HO HI HGB.
+  destruct (proj1 ctl_all s HF st st' HC (fun _ => HO) HI HGB) as [S _].
+  split; [apply (sx_inv _ _ S HI)|]. split; [apply (sx_out _ _ S)|apply (sx_bound _ _ S)].
 Qed.
